@@ -1,1 +1,2568 @@
-//! stub
+//! HTTP/2 peers: one connection engine (`H2Peer`) usable as **client** (to sozu's HTTPS listener,
+//! over TLS with ALPN h2, or cleartext prior knowledge) and as **server** (h2c backend that sozu
+//! dials when the cluster has `http2: true`), plus the two actors that own them (`H2Client`,
+//! `H2Backend`).
+//!
+//! The engine is plan-driven and records everything it observes. It also keeps, independently of
+//! sozu, the **flow-control and limits ledger** used by C14: what this peer granted sozu
+//! (windows, frame size, concurrent streams, header table size) and whether anything sozu sent
+//! exceeded it. Grants take effect in the ledger only once the bytes that carry them are
+//! completely written to the socket (sozu cannot have seen them earlier) and our SETTINGS take
+//! effect at the position of sozu's ACK in the inbound byte stream, so a ledger violation is
+//! definite.
+#![allow(dead_code)]
+
+use std::any::Any;
+use std::collections::{BTreeMap, VecDeque};
+use std::net::SocketAddr;
+
+use serde::{Deserialize, Serialize};
+
+use super::h2codec::*;
+use super::tls::{PlainTransport, ReadOutcome, TlsPlan, TlsRecord, TlsTransport, Transport};
+use super::{gen_byte, BodyCheck, Pace};
+use crate::prng::Prng;
+use crate::sys;
+use crate::world::{Actor, Step, World};
+
+// ===================================================================================== plans
+
+#[derive(Clone, Copy, Debug, PartialEq, Eq, Serialize, Deserialize)]
+pub enum Role {
+    Client,
+    Server,
+}
+
+/// One SETTINGS frame of ours. `None` = parameter absent from the frame.
+#[derive(Clone, Debug, Default, PartialEq, Serialize, Deserialize)]
+pub struct SettingsSpec {
+    pub header_table_size: Option<u32>,
+    pub enable_push: Option<u32>,
+    pub max_concurrent_streams: Option<u32>,
+    pub initial_window_size: Option<u32>,
+    pub max_frame_size: Option<u32>,
+    pub max_header_list_size: Option<u32>,
+    /// further (id, value) pairs appended verbatim (unknown ids, duplicates, invalid values)
+    pub extra: Vec<(u16, u32)>,
+}
+impl SettingsSpec {
+    pub fn params(&self) -> Vec<(u16, u32)> {
+        let mut v = Vec::new();
+        if let Some(x) = self.header_table_size { v.push((sid::HEADER_TABLE_SIZE, x)); }
+        if let Some(x) = self.enable_push { v.push((sid::ENABLE_PUSH, x)); }
+        if let Some(x) = self.max_concurrent_streams { v.push((sid::MAX_CONCURRENT_STREAMS, x)); }
+        if let Some(x) = self.initial_window_size { v.push((sid::INITIAL_WINDOW_SIZE, x)); }
+        if let Some(x) = self.max_frame_size { v.push((sid::MAX_FRAME_SIZE, x)); }
+        if let Some(x) = self.max_header_list_size { v.push((sid::MAX_HEADER_LIST_SIZE, x)); }
+        v.extend_from_slice(&self.extra);
+        v
+    }
+}
+
+/// Trigger of a mid-connection action.
+#[derive(Clone, Debug, PartialEq, Serialize, Deserialize)]
+pub enum When {
+    /// flow-controlled DATA bytes received on the connection so far
+    RecvData(u64),
+    /// frames received so far
+    RecvFrames(u64),
+    /// DATA payload bytes sent so far
+    SentData(u64),
+    /// streams opened on the connection so far (by either side)
+    StreamsOpened(u32),
+    /// virtual time since the connection started
+    AfterNs(u64),
+}
+
+#[derive(Clone, Debug, PartialEq, Serialize, Deserialize)]
+pub struct SettingsChange {
+    pub when: When,
+    pub settings: SettingsSpec,
+}
+
+/// When consumed flow-control credit is given back.
+#[derive(Clone, Debug, PartialEq, Serialize, Deserialize)]
+pub enum WuMode {
+    /// everything owed, as soon as something is owed
+    Eager,
+    /// at most n bytes per step
+    Drip(u32),
+    /// everything owed once at least n bytes are owed
+    Threshold(u32),
+    /// everything owed once the window (as the ledger sees it) is used up
+    WhenExhausted,
+    /// everything owed once the oldest owed byte is this old (ns)
+    Late(u64),
+    Never,
+}
+#[derive(Clone, Debug, PartialEq, Serialize, Deserialize)]
+pub struct WuPolicy {
+    pub stream: WuMode,
+    pub conn: WuMode,
+    /// keeps every schedule eventually generous: when nothing has arrived for this long and credit
+    /// is owed, all of it is granted (0 = off)
+    pub fallback_ns: u64,
+}
+impl WuPolicy {
+    pub fn eager() -> WuPolicy { WuPolicy { stream: WuMode::Eager, conn: WuMode::Eager, fallback_ns: 0 } }
+}
+
+#[derive(Clone, Debug, PartialEq, Serialize, Deserialize)]
+pub enum AckPolicy {
+    Immediate,
+    Delay(u64),
+    Never,
+}
+
+/// Connection-level behaviour common to both roles.
+#[derive(Clone, Debug, PartialEq, Serialize, Deserialize)]
+pub struct H2ConnPlan {
+    /// first SETTINGS frame
+    pub settings: SettingsSpec,
+    pub changes: Vec<SettingsChange>,
+    /// WINDOW_UPDATE on stream 0 sent right after the first SETTINGS (0 = none)
+    pub conn_window_bonus: u32,
+    pub wu: WuPolicy,
+    pub ack_settings: AckPolicy,
+    pub answer_pings: bool,
+    pub hpack: HpackStyle,
+    /// payload units (a header block, one DATA frame, one burst of an abuse op) produced per step
+    pub batch: u32,
+}
+impl Default for H2ConnPlan {
+    fn default() -> Self {
+        H2ConnPlan {
+            settings: SettingsSpec::default(),
+            changes: vec![],
+            conn_window_bonus: 0,
+            wu: WuPolicy::eager(),
+            ack_settings: AckPolicy::Immediate,
+            answer_pings: true,
+            hpack: HpackStyle::default(),
+            batch: 1,
+        }
+    }
+}
+
+/// How a message ends.
+#[derive(Clone, Debug, PartialEq, Serialize, Deserialize)]
+pub enum EndMode {
+    /// END_STREAM on the last DATA frame, or on HEADERS when there is no body
+    Auto,
+    /// a separate empty DATA frame carries END_STREAM
+    EmptyData,
+    /// a trailing HEADERS frame carries END_STREAM
+    Trailers(Vec<(String, String)>),
+    /// never end the stream
+    Never,
+}
+
+#[derive(Clone, Debug, PartialEq, Serialize, Deserialize)]
+pub struct BodyPlan {
+    pub len: usize,
+    /// DATA payload sizes in order (0 = an empty DATA frame); what is left afterwards goes out in
+    /// frames as large as the peer allows. A size that does not fit the windows / frame limit is split.
+    pub frames: Vec<usize>,
+    /// padding per DATA frame, cycled (`Some(0)` = PADDED flag with no padding); empty = none
+    pub pad: Vec<Option<u8>>,
+    pub end: EndMode,
+    /// send a content-length header
+    pub content_length: bool,
+}
+impl BodyPlan {
+    pub fn none() -> BodyPlan { BodyPlan { len: 0, frames: vec![], pad: vec![], end: EndMode::Auto, content_length: false } }
+    pub fn of(len: usize) -> BodyPlan { BodyPlan { len, frames: vec![], pad: vec![], end: EndMode::Auto, content_length: true } }
+}
+
+/// Reset one of our own streams part-way.
+#[derive(Clone, Debug, PartialEq, Serialize, Deserialize)]
+pub struct Cancel {
+    /// once this many body bytes were sent (0 = right after HEADERS)
+    pub after_sent_body: Option<u64>,
+    /// once this many body bytes of the answer were received
+    pub after_recv_body: Option<u64>,
+    pub code: u32,
+}
+
+#[derive(Clone, Debug, PartialEq, Serialize, Deserialize)]
+pub struct H2ReqSpec {
+    pub id: u64,
+    pub method: String,
+    /// `None` = "https" over TLS, "http" otherwise
+    pub scheme: Option<String>,
+    pub authority: Option<String>,
+    pub path: String,
+    pub headers: Vec<(String, String)>,
+    pub body: BodyPlan,
+    /// header block fragment sizes: first in HEADERS, the others in CONTINUATION frames (zeros
+    /// give empty frames); the rest follows in frames as large as allowed. Empty = no forced split.
+    pub cont_split: Vec<usize>,
+    pub priority: Option<Priority>,
+    pub headers_pad: Option<u8>,
+    /// think time before the stream is opened
+    pub delay_ns: u64,
+    pub cancel: Option<Cancel>,
+    /// replaces the whole header list, pseudo-headers included (malformed-request tests)
+    pub raw_headers: Option<Vec<(String, String)>>,
+    /// replaces the encoded header block
+    pub raw_block: Option<Vec<u8>>,
+}
+impl H2ReqSpec {
+    pub fn get(id: u64, authority: &str, path: &str) -> H2ReqSpec {
+        H2ReqSpec {
+            id, method: "GET".into(), scheme: None, authority: Some(authority.into()), path: path.into(), headers: vec![], body: BodyPlan::none(),
+            cont_split: vec![], priority: None, headers_pad: None, delay_ns: 0, cancel: None, raw_headers: None, raw_block: None,
+        }
+    }
+    pub fn post(id: u64, authority: &str, path: &str, len: usize) -> H2ReqSpec {
+        let mut r = H2ReqSpec::get(id, authority, path);
+        r.method = "POST".into();
+        r.body = BodyPlan::of(len);
+        r
+    }
+    pub fn header_list(&self, tls: bool) -> Vec<(String, String)> {
+        if let Some(r) = &self.raw_headers { return r.clone(); }
+        let mut v: Vec<(String, String)> = vec![(":method".into(), self.method.clone()), (":scheme".into(), self.scheme.clone().unwrap_or_else(|| if tls { "https" } else { "http" }.into()))];
+        if let Some(a) = &self.authority { v.push((":authority".into(), a.clone())); }
+        v.push((":path".into(), self.path.clone()));
+        v.push(("x-sim-id".into(), self.id.to_string()));
+        v.extend(self.headers.iter().cloned());
+        if self.body.content_length { v.push(("content-length".into(), self.body.len.to_string())); }
+        v
+    }
+}
+
+#[derive(Clone, Debug, PartialEq, Serialize, Deserialize)]
+pub enum H2RespFault {
+    /// RST_STREAM instead of any answer
+    Refuse(u32),
+    /// RST_STREAM once this many body bytes were sent
+    RstAfterBody(u64, u32),
+    /// GOAWAY(code) once this many body bytes were sent; `close` = then close the connection
+    GoAwayAfterBody { body: u64, code: u32, close: bool },
+    /// close the connection once this many body bytes were sent
+    CloseAfterBody(u64),
+}
+#[derive(Clone, Copy, Debug, PartialEq, Eq, Serialize, Deserialize)]
+pub enum RespondOn {
+    Headers,
+    EndStream,
+}
+#[derive(Clone, Debug, PartialEq, Serialize, Deserialize)]
+pub struct H2RespSpec {
+    pub status: u16,
+    pub headers: Vec<(String, String)>,
+    pub body: BodyPlan,
+    pub cont_split: Vec<usize>,
+    pub headers_pad: Option<u8>,
+    pub delay_ns: u64,
+    /// 1xx answers sent first (100, 103)
+    pub interim: Vec<u16>,
+    pub respond_on: RespondOn,
+    pub fault: Option<H2RespFault>,
+    /// abusive frames sent instead of an answer
+    pub abuse: Vec<AbuseOp>,
+}
+impl H2RespSpec {
+    pub fn ok(len: usize) -> H2RespSpec {
+        H2RespSpec { status: 200, headers: vec![], body: BodyPlan::of(len), cont_split: vec![], headers_pad: None, delay_ns: 0, interim: vec![], respond_on: RespondOn::Headers, fault: None, abuse: vec![] }
+    }
+    pub fn header_list(&self, id: Option<u64>) -> Vec<(String, String)> {
+        let mut v: Vec<(String, String)> = vec![(":status".into(), self.status.to_string())];
+        if let Some(id) = id { v.push(("x-sim-id".into(), id.to_string())); }
+        v.extend(self.headers.iter().cloned());
+        if self.body.content_length { v.push(("content-length".into(), self.body.len.to_string())); }
+        v
+    }
+}
+
+// ------------------------------------------------------------------------------- abuse (C15)
+
+/// Which stream an abusive frame names.
+#[derive(Clone, Debug, PartialEq, Serialize, Deserialize)]
+pub enum StreamRef {
+    Conn,
+    Id(u32),
+    /// the next unused id of ours (and use it up)
+    Fresh,
+    /// an id we have not reached yet: next unused + 2k, not used up
+    Idle(u32),
+    LastOpened,
+    /// the most recent stream of ours that is fully closed
+    LastClosed,
+}
+/// Pacing of a flood: `burst` frames (or frame groups) per step, then pause `gap_ns`.
+#[derive(Clone, Debug, PartialEq, Serialize, Deserialize)]
+pub struct Rate {
+    pub burst: u32,
+    pub gap_ns: u64,
+}
+impl Rate {
+    pub fn all_at_once() -> Rate { Rate { burst: u32::MAX, gap_ns: 0 } }
+}
+#[derive(Clone, Debug, PartialEq, Serialize, Deserialize)]
+pub enum AbuseOp {
+    /// exactly these bytes
+    Raw(Vec<u8>),
+    /// exactly this frame: any type, flags, stream, declared length (`None` = payload length)
+    Frame { ty: u8, flags: u8, stream: StreamRef, declared_len: Option<u32>, payload: Vec<u8> },
+    /// `count` x (HEADERS on a fresh stream, RST_STREAM(code))
+    RapidReset { count: u32, code: u32, authority: String, path: String, end_stream: bool, rate: Rate },
+    /// HEADERS without END_HEADERS on a fresh stream, then `count` CONTINUATION frames each with one
+    /// literal field of about `frag_len` bytes (0 = empty frames); `finish` sets END_HEADERS on the last
+    ContinuationFlood { count: u32, frag_len: u32, finish: bool, authority: String, rate: Rate },
+    PingFlood { count: u32, ack: bool, rate: Rate },
+    SettingsFlood { count: u32, params: Vec<(u16, u32)>, rate: Rate },
+    /// POST on a fresh stream, then `count` empty DATA frames
+    EmptyDataFlood { count: u32, pad: Option<u8>, end_stream_last: bool, authority: String, rate: Rate },
+    /// one request carrying `fields` extra header fields with `field_len`-byte values
+    OversizedHeaders { fields: u32, field_len: u32, authority: String },
+    /// `count` WINDOW_UPDATE frames (increment 0 = zero increment; 0x7fffffff twice = overflow)
+    WindowUpdate { stream: StreamRef, increment: u32, count: u32 },
+    /// a request's HEADERS on the most recently closed stream of ours
+    HeadersOnClosed { authority: String },
+    /// `len` pseudo-random bytes keyed by `seed`
+    Garbage { len: u32, seed: u64 },
+}
+
+/// Client script, processed in order.
+#[derive(Clone, Debug, PartialEq, Serialize, Deserialize)]
+pub enum ClientOp {
+    /// open a stream (waits while `max_concurrent` streams are in flight); it then runs on its own
+    Req(H2ReqSpec),
+    Abuse(AbuseOp),
+    /// until every stream opened so far is closed
+    WaitStreams,
+    /// until this many frames have been received on the connection in total
+    WaitFrames(u64),
+    Sleep(u64),
+    Settings(SettingsSpec),
+    Ping([u8; 8]),
+    GoAway { code: u32, last_stream: u32 },
+}
+
+#[derive(Clone, Debug, PartialEq, Serialize, Deserialize)]
+pub enum CloseMode {
+    /// close(2) (unread input turns into a reset, as with TCP)
+    Close,
+    /// TLS close_notify / shutdown(SHUT_WR), then wait for sozu to close (bounded by `linger_ns`)
+    HalfClose,
+    /// keep the connection and wait for sozu to close it (bounded by `linger_ns`)
+    WaitPeer,
+}
+#[derive(Clone, Debug, PartialEq, Serialize, Deserialize)]
+pub struct EndPlan {
+    /// send GOAWAY(code) before ending
+    pub goaway: Option<u32>,
+    pub mode: CloseMode,
+    /// keep observing the connection this long after the script is complete
+    pub linger_ns: u64,
+}
+impl Default for EndPlan {
+    fn default() -> Self { EndPlan { goaway: Some(ecode::NO_ERROR), mode: CloseMode::Close, linger_ns: 0 } }
+}
+
+#[derive(Clone, Debug, Serialize, Deserialize)]
+pub struct H2ClientPlan {
+    pub name: String,
+    pub src: SocketAddr,
+    pub dst: SocketAddr,
+    pub start_ns: u64,
+    pub pace: Pace,
+    pub sndbuf: Option<i32>,
+    /// `None` = cleartext with prior knowledge
+    pub tls: Option<TlsPlan>,
+    pub conn: H2ConnPlan,
+    pub script: Vec<ClientOp>,
+    /// streams of ours in flight at once (further capped by sozu's MAX_CONCURRENT_STREAMS)
+    pub max_concurrent: u32,
+    pub end: EndPlan,
+    /// abandon the connection this long after connecting (0 = never)
+    pub give_up_ns: u64,
+}
+impl H2ClientPlan {
+    pub fn simple(name: &str, src: SocketAddr, dst: SocketAddr, tls: Option<TlsPlan>, reqs: Vec<H2ReqSpec>) -> H2ClientPlan {
+        H2ClientPlan {
+            name: name.into(), src, dst, start_ns: 0, pace: Pace::greedy(), sndbuf: None, tls, conn: H2ConnPlan::default(),
+            script: reqs.into_iter().map(ClientOp::Req).collect(), max_concurrent: 100, end: EndPlan::default(), give_up_ns: 0,
+        }
+    }
+    pub fn requests(&self) -> Vec<&H2ReqSpec> {
+        self.script.iter().filter_map(|o| if let ClientOp::Req(r) = o { Some(r) } else { None }).collect()
+    }
+}
+
+#[derive(Clone, Debug, Serialize, Deserialize)]
+pub struct H2BackendPlan {
+    pub name: String,
+    pub addr: SocketAddr,
+    pub pace: Pace,
+    pub conn: H2ConnPlan,
+    /// answers by `x-sim-id`
+    pub responses: BTreeMap<u64, H2RespSpec>,
+    pub default: H2RespSpec,
+    /// abusive frames sent on every accepted connection right after our SETTINGS
+    pub on_accept_abuse: Vec<AbuseOp>,
+    pub close_on_accept: Vec<usize>,
+    pub listen_from_ns: u64,
+    pub listen_until_ns: u64,
+}
+impl H2BackendPlan {
+    pub fn simple(name: &str, addr: SocketAddr, responses: BTreeMap<u64, H2RespSpec>) -> H2BackendPlan {
+        H2BackendPlan { name: name.into(), addr, pace: Pace::greedy(), conn: H2ConnPlan::default(), responses, default: H2RespSpec::ok(3), on_accept_abuse: vec![], close_on_accept: vec![], listen_from_ns: 0, listen_until_ns: 0 }
+    }
+}
+
+// ===================================================================================== records
+
+#[derive(Clone, Debug, PartialEq, Serialize, Deserialize)]
+pub struct LedgerViolation {
+    /// stream_window_exceeded | conn_window_exceeded | frame_too_large | too_many_streams |
+    /// illegal_stream_id | hpack_table_exceeded | hpack_decode_error | hpack_missing_size_update |
+    /// data_on_closed_stream | data_on_idle_stream | headers_on_closed_stream |
+    /// continuation_interleaved | malformed_frame | bad_preface | unexpected_settings_ack |
+    /// invalid_settings_value | zero_window_increment | window_overflow | push_promise |
+    /// header_list_too_large | frame_on_idle_stream.
+    /// Suffix `_pre_ack`: exceeds the acknowledged value but not a value of ours that is on the wire
+    /// and not acknowledged yet (a relaxation sozu already read but has not acknowledged).
+    pub kind: String,
+    pub stream: u32,
+    pub t: u64,
+    pub detail: String,
+}
+
+/// Reach probes of the ledger.
+#[derive(Clone, Debug, Default, PartialEq, Serialize, Deserialize)]
+pub struct LedgerCounters {
+    pub conn_window_zero_hits: u64,
+    pub stream_window_zero_hits: u64,
+    /// stream windows driven below zero by an acknowledged INITIAL_WINDOW_SIZE reduction
+    pub negative_window_settings_applied: u64,
+    pub max_frame_seen: u32,
+    /// streams opened by sozu / by us
+    pub streams_opened_by_peer: u64,
+    pub streams_opened_by_us: u64,
+    pub max_concurrent_seen: u32,
+    pub data_after_our_rst: u64,
+    pub streams_after_our_goaway: u64,
+    /// times one of our DATA frames had to wait for / be cut to sozu's connection / stream window
+    pub send_blocked_conn: u64,
+    pub send_blocked_stream: u64,
+    /// longest virtual time we were unable to send any DATA because of sozu's windows
+    pub max_send_blocked_ns: u64,
+    pub window_updates_sent: u64,
+    pub violations_dropped: u64,
+}
+
+#[derive(Clone, Debug, Default, Serialize, Deserialize)]
+pub struct StreamRec {
+    pub id: u32,
+    pub opened_by_us: bool,
+    /// id of the plan's request sent on this stream (client role)
+    pub req_id: Option<u64>,
+    /// `x-sim-id` observed in the headers sozu sent on this stream
+    pub sim_id: Option<u64>,
+    /// first non-1xx header block received (request in the server role, response in the client role)
+    pub headers: Vec<(String, String)>,
+    pub status: Option<u16>,
+    pub interim: Vec<u16>,
+    pub trailers: Vec<(String, String)>,
+    /// HEADERS + CONTINUATION frames received
+    pub header_frames: u32,
+    /// size of the first header list as RFC 9113 §6.5.2 counts it
+    pub header_list_size: u64,
+    /// malformed-message notes (uppercase names, connection-specific fields, pseudo-header faults...)
+    pub header_issues: Vec<String>,
+    pub check: BodyCheck,
+    pub body_len: u64,
+    pub body_head: Vec<u8>,
+    pub data_frames: u32,
+    pub padding_bytes: u64,
+    pub recv_end: bool,
+    /// which frame carried END_STREAM: "headers" | "data" | "empty_data" | "trailers"
+    pub recv_end_on: String,
+    pub recv_rst: Option<u32>,
+    pub sent_end: bool,
+    pub sent_rst: Option<u32>,
+    /// ... and the frame is completely on the wire
+    pub sent_end_wire: bool,
+    pub sent_rst_wire: bool,
+    /// GOAWAY from sozu with last_stream_id below this stream
+    pub refused_by_goaway: bool,
+    /// the plan never ends our side of this stream (`EndMode::Never`)
+    pub left_open_by_plan: bool,
+    pub sent_body: u64,
+    pub t_open: u64,
+    pub t_headers: u64,
+    pub t_end: u64,
+    pub t_rst: u64,
+    /// our last byte (END_STREAM frame) reached the wire
+    pub t_sent_end: u64,
+    /// sum of WINDOW_UPDATE increments sozu sent for this stream
+    pub wu_recv: u64,
+    // --- ledger: what we granted sozu on this stream
+    pub recv_window: i64,
+    pub min_recv_window: i64,
+    pub owed: u64,
+    pub owed_since: u64,
+    // --- what sozu granted us
+    pub send_window: i64,
+}
+impl StreamRec {
+    pub fn header(&self, name: &str) -> Option<&str> {
+        self.headers.iter().find(|(n, _)| n.eq_ignore_ascii_case(name)).map(|(_, v)| v.as_str())
+    }
+    pub fn body_ok(&self) -> bool { self.check.first_bad.is_none() }
+    /// both directions finished, or reset by either side
+    pub fn closed(&self) -> bool { self.recv_rst.is_some() || self.sent_rst.is_some() || (self.recv_end && self.sent_end) }
+    /// nothing more will happen on it as far as the plan goes
+    pub fn settled(&self) -> bool { self.closed() || self.refused_by_goaway || (self.left_open_by_plan && self.recv_end) }
+    /// as sozu can know it: counts against our MAX_CONCURRENT_STREAMS until this is true
+    fn closed_on_wire(&self) -> bool { self.recv_rst.is_some() || self.sent_rst_wire || (self.recv_end && self.sent_end_wire) }
+    /// sozu may still send DATA here
+    fn receiving(&self) -> bool { !self.recv_end && self.recv_rst.is_none() }
+}
+
+#[derive(Clone, Debug, Default, PartialEq, Serialize, Deserialize)]
+pub struct GoAwayRec {
+    pub t: u64,
+    pub last_stream: u32,
+    pub code: u32,
+    pub debug: Vec<u8>,
+}
+#[derive(Clone, Debug, Default, PartialEq, Serialize, Deserialize)]
+pub struct SettingsSent {
+    pub t_queued: u64,
+    pub params: Vec<(u16, u32)>,
+    pub t_wire: Option<u64>,
+    pub t_acked: Option<u64>,
+}
+#[derive(Clone, Debug, Default, PartialEq, Serialize, Deserialize)]
+pub struct AbuseSent {
+    pub op: usize,
+    pub t_start: u64,
+    pub t_end: u64,
+    pub frames: u64,
+    pub bytes: u64,
+    /// fresh stream ids the op used
+    pub streams: Vec<u32>,
+}
+
+#[derive(Clone, Debug, Serialize, Deserialize)]
+pub struct H2ConnRecord {
+    pub role: Role,
+    /// accept order (server role)
+    pub idx: usize,
+    pub connect_err: Option<i32>,
+    pub t_connect: u64,
+    pub tls: Option<TlsRecord>,
+    pub tls_setup_error: Option<String>,
+    /// client connection preface received (server role)
+    pub preface_ok: bool,
+    /// SETTINGS frames received from sozu
+    pub peer_settings: Vec<(u64, Vec<(u16, u32)>)>,
+    pub settings_sent: Vec<SettingsSent>,
+    pub settings_acks_recv: u32,
+    pub settings_acks_sent: u32,
+    /// (t, opaque data, ack flag)
+    pub pings_recv: Vec<(u64, [u8; 8], bool)>,
+    pub pings_sent: u32,
+    pub goaways: Vec<GoAwayRec>,
+    pub goaway_sent: Option<(u64, u32)>,
+    /// (t, stream, increment), first 4096 only; sums are in `conn_wu_recv` / `StreamRec::wu_recv`
+    pub window_updates_recv: Vec<(u64, u32, u32)>,
+    pub conn_wu_recv: u64,
+    /// (t, stream, code)
+    pub rst_recv: Vec<(u64, u32, u32)>,
+    /// (t, stream, code)
+    pub rst_sent: Vec<(u64, u32, u32)>,
+    pub frames_recv: BTreeMap<u8, u64>,
+    pub frames_recv_total: u64,
+    pub frames_sent: u64,
+    pub data_bytes_recv: u64,
+    pub data_bytes_sent: u64,
+    pub bytes_recv: u64,
+    pub bytes_sent: u64,
+    pub streams: BTreeMap<u32, StreamRec>,
+    pub violations: Vec<LedgerViolation>,
+    pub counters: LedgerCounters,
+    pub abuse_sent: Vec<AbuseSent>,
+    /// requests of the script never sent (connection gone / GOAWAY received)
+    pub requests_not_sent: Vec<u64>,
+    pub script_done: bool,
+    pub eof: bool,
+    pub reset: bool,
+    pub io_err: Option<i32>,
+    pub write_err: Option<i32>,
+    pub t_close_seen: u64,
+    pub closed_by_us: bool,
+    pub t_closed_by_us: u64,
+    pub gave_up: bool,
+    /// ledger state at the end
+    pub conn_recv_window: i64,
+    pub min_conn_recv_window: i64,
+    pub conn_send_window: i64,
+}
+impl H2ConnRecord {
+    fn new(role: Role) -> H2ConnRecord {
+        H2ConnRecord {
+            role, idx: 0, connect_err: None, t_connect: 0, tls: None, tls_setup_error: None, preface_ok: false, peer_settings: vec![], settings_sent: vec![],
+            settings_acks_recv: 0, settings_acks_sent: 0, pings_recv: vec![], pings_sent: 0, goaways: vec![], goaway_sent: None, window_updates_recv: vec![],
+            conn_wu_recv: 0, rst_recv: vec![], rst_sent: vec![], frames_recv: BTreeMap::new(), frames_recv_total: 0, frames_sent: 0, data_bytes_recv: 0,
+            data_bytes_sent: 0, bytes_recv: 0, bytes_sent: 0, streams: BTreeMap::new(), violations: vec![], counters: LedgerCounters::default(),
+            abuse_sent: vec![], requests_not_sent: vec![], script_done: false, eof: false, reset: false, io_err: None, write_err: None, t_close_seen: 0,
+            closed_by_us: false, t_closed_by_us: 0, gave_up: false, conn_recv_window: DEFAULT_WINDOW as i64, min_conn_recv_window: DEFAULT_WINDOW as i64,
+            conn_send_window: DEFAULT_WINDOW as i64,
+        }
+    }
+    /// the stream that carried request `id` (client role: by what we sent; server role: by what arrived)
+    pub fn stream_for(&self, id: u64) -> Option<&StreamRec> {
+        self.streams.values().find(|s| if self.role == Role::Client { s.req_id == Some(id) } else { s.sim_id == Some(id) })
+    }
+    pub fn has_violation(&self, kind: &str) -> bool { self.violations.iter().any(|v| v.kind == kind) }
+    /// connection is over as far as this peer saw
+    pub fn ended(&self) -> bool { self.eof || self.io_err.is_some() || self.closed_by_us }
+}
+
+/// Settings in force in one direction.
+#[derive(Clone, Copy, Debug, PartialEq)]
+struct Limits {
+    header_table_size: u32,
+    enable_push: u32,
+    max_concurrent: u32,
+    initial_window: u32,
+    max_frame: u32,
+    max_header_list: u32,
+}
+impl Default for Limits {
+    fn default() -> Self {
+        Limits { header_table_size: DEFAULT_TABLE_SIZE, enable_push: 1, max_concurrent: u32::MAX, initial_window: DEFAULT_WINDOW, max_frame: DEFAULT_MAX_FRAME, max_header_list: u32::MAX }
+    }
+}
+impl Limits {
+    fn set(&mut self, id: u16, v: u32) {
+        match id {
+            sid::HEADER_TABLE_SIZE => self.header_table_size = v,
+            sid::ENABLE_PUSH => self.enable_push = v,
+            sid::MAX_CONCURRENT_STREAMS => self.max_concurrent = v,
+            sid::INITIAL_WINDOW_SIZE => self.initial_window = v,
+            sid::MAX_FRAME_SIZE => self.max_frame = v,
+            sid::MAX_HEADER_LIST_SIZE => self.max_header_list = v,
+            _ => {}
+        }
+    }
+}
+
+// ===================================================================================== engine
+
+/// Send-side state of one stream of ours (request body in the client role, answer in the server role).
+struct Tx {
+    key: u64,
+    body_len: u64,
+    frames: VecDeque<usize>,
+    pad: Vec<Option<u8>>,
+    pad_i: usize,
+    end: EndMode,
+    cancel: Option<Cancel>,
+    fault: Option<H2RespFault>,
+    done: bool,
+}
+
+/// Ledger effects that become true when the bytes carrying them are on the wire.
+#[derive(Clone, Debug)]
+enum Mark {
+    Wu { stream: u32, inc: u32 },
+    EndStream(u32),
+    Rst(u32),
+    Settings(usize),
+}
+
+struct Cont {
+    stream: u32,
+    end_stream: bool,
+    block: Vec<u8>,
+    frames: u32,
+}
+
+struct PendingResp {
+    stream: u32,
+    id: Option<u64>,
+    spec: H2RespSpec,
+    /// `None` = waiting for the request's END_STREAM
+    ready_at: Option<u64>,
+}
+
+pub struct EngineStep {
+    pub progressed: bool,
+    pub wake: Option<u64>,
+    pub finished: bool,
+}
+
+/// One HTTP/2 connection endpoint over any [`Transport`].
+pub struct H2Peer {
+    pub role: Role,
+    pub plan: H2ConnPlan,
+    pub pace: Pace,
+    pub rec: H2ConnRecord,
+    tr: Box<dyn Transport>,
+    is_tls: bool,
+    rng: Prng,
+    reader: FrameReader,
+    enc: HpackEncoder,
+    dec: HpackDecoder,
+    // ---- plaintext output
+    out: Vec<u8>,
+    out_pos: usize,
+    /// plaintext bytes ever queued (= stream offset of the end of `out`)
+    out_total: u64,
+    marks: VecDeque<(u64, Mark)>,
+    // ---- our settings: in force (acknowledged by sozu) and sent but not yet acknowledged
+    acked: Limits,
+    unacked: VecDeque<(usize, Vec<(u16, u32)>)>,
+    // ---- sozu's settings and the credit it gave us
+    peer: Limits,
+    conn_send_window: i64,
+    // ---- ledger: connection-level credit we gave sozu
+    conn_recv_window: i64,
+    owed_conn: u64,
+    owed_conn_since: u64,
+    last_recv_progress: u64,
+    // ---- streams
+    tx: BTreeMap<u32, Tx>,
+    cont: Option<Cont>,
+    next_stream_id: u32,
+    last_peer_stream: u32,
+    last_opened_by_us: u32,
+    streams_opened: u32,
+    // ---- control
+    started: bool,
+    t_start: u64,
+    acks_owed: VecDeque<u64>,
+    pings_owed: VecDeque<[u8; 8]>,
+    changes_done: Vec<bool>,
+    // ---- client script
+    script: Vec<ClientOp>,
+    cursor: usize,
+    max_concurrent: u32,
+    sleep_until: u64,
+    req_ready_at: u64,
+    end: EndPlan,
+    give_up_at: u64,
+    /// 0 running, 1 ending (flush, linger), 2 finished
+    phase: u8,
+    linger_until: u64,
+    // ---- server answers
+    responses: BTreeMap<u64, H2RespSpec>,
+    default_resp: Option<H2RespSpec>,
+    resp_queue: Vec<PendingResp>,
+    close_after_flush: bool,
+    // ---- abuse
+    abuse_q: VecDeque<(usize, AbuseOp)>,
+    abuse_i: u32,
+    abuse_until: u64,
+    abuse_stream: u32,
+    in_cont_flood: bool,
+    blocked_since: Option<u64>,
+    shut_sent: bool,
+}
+
+const MAX_VIOLATIONS: usize = 64;
+
+impl H2Peer {
+    fn new(role: Role, tr: Box<dyn Transport>, is_tls: bool, plan: H2ConnPlan, pace: Pace, rng: Prng) -> H2Peer {
+        let nchanges = plan.changes.len();
+        let enc = HpackEncoder::new(plan.hpack.clone());
+        H2Peer {
+            role,
+            plan,
+            pace,
+            rec: H2ConnRecord::new(role),
+            tr,
+            is_tls,
+            rng,
+            reader: FrameReader::new(role == Role::Server),
+            enc,
+            dec: HpackDecoder::new(),
+            out: Vec::new(),
+            out_pos: 0,
+            out_total: 0,
+            marks: VecDeque::new(),
+            acked: Limits::default(),
+            unacked: VecDeque::new(),
+            peer: Limits::default(),
+            conn_send_window: DEFAULT_WINDOW as i64,
+            conn_recv_window: DEFAULT_WINDOW as i64,
+            owed_conn: 0,
+            owed_conn_since: 0,
+            last_recv_progress: 0,
+            tx: BTreeMap::new(),
+            cont: None,
+            next_stream_id: if role == Role::Client { 1 } else { 2 },
+            last_peer_stream: 0,
+            last_opened_by_us: 0,
+            streams_opened: 0,
+            started: false,
+            t_start: 0,
+            acks_owed: VecDeque::new(),
+            pings_owed: VecDeque::new(),
+            changes_done: vec![false; nchanges],
+            script: Vec::new(),
+            cursor: 0,
+            max_concurrent: u32::MAX,
+            sleep_until: 0,
+            req_ready_at: 0,
+            end: EndPlan::default(),
+            give_up_at: 0,
+            phase: 0,
+            linger_until: 0,
+            responses: BTreeMap::new(),
+            default_resp: None,
+            resp_queue: Vec::new(),
+            close_after_flush: false,
+            abuse_q: VecDeque::new(),
+            abuse_i: 0,
+            abuse_until: 0,
+            abuse_stream: 0,
+            in_cont_flood: false,
+            blocked_since: None,
+            shut_sent: false,
+        }
+    }
+
+    /// Client endpoint running `script`.
+    pub fn client(tr: Box<dyn Transport>, is_tls: bool, plan: &H2ClientPlan, rng: Prng) -> H2Peer {
+        let mut p = H2Peer::new(Role::Client, tr, is_tls, plan.conn.clone(), plan.pace.clone(), rng);
+        p.script = plan.script.clone();
+        p.max_concurrent = plan.max_concurrent.max(1);
+        p.end = plan.end.clone();
+        p
+    }
+    /// Server endpoint answering from `responses` (h2c backend).
+    pub fn server(tr: Box<dyn Transport>, plan: &H2BackendPlan, rng: Prng) -> H2Peer {
+        let mut p = H2Peer::new(Role::Server, tr, false, plan.conn.clone(), plan.pace.clone(), rng);
+        p.responses = plan.responses.clone();
+        p.default_resp = Some(plan.default.clone());
+        for (i, op) in plan.on_accept_abuse.iter().enumerate() {
+            p.abuse_q.push_back((i, op.clone()));
+        }
+        p
+    }
+
+    /// Snapshot of the record, ledger end state included.
+    pub fn record(&self) -> H2ConnRecord {
+        let mut r = self.rec.clone();
+        r.tls = self.tr.tls().cloned();
+        r.conn_recv_window = self.conn_recv_window;
+        r.conn_send_window = self.conn_send_window;
+        r.bytes_sent = self.tr.wire_written();
+        r.bytes_recv = self.tr.wire_read();
+        r.write_err = self.tr.write_error();
+        r
+    }
+    pub fn finished(&self) -> bool { self.phase == 2 }
+
+    // ---------------------------------------------------------------- small helpers
+
+    fn violate(&mut self, now: u64, kind: &str, stream: u32, detail: String) {
+        if self.rec.violations.iter().any(|v| v.kind == kind && v.stream == stream) || self.rec.violations.len() >= MAX_VIOLATIONS {
+            self.rec.counters.violations_dropped += 1;
+            return;
+        }
+        self.rec.violations.push(LedgerViolation { kind: kind.to_string(), stream, t: now, detail });
+    }
+
+    /// largest value of a setting among what is acknowledged and what is on the wire unacknowledged
+    fn relaxed(&self, id: u16, acked: u32) -> u32 {
+        let mut m = acked;
+        for (idx, params) in &self.unacked {
+            if self.rec.settings_sent[*idx].t_wire.is_some() {
+                for (i, v) in params {
+                    if *i == id { m = m.max(*v); }
+                }
+            }
+        }
+        m
+    }
+
+    fn push_bytes(&mut self, b: &[u8], frames: u64) {
+        self.out.extend_from_slice(b);
+        self.out_total += b.len() as u64;
+        self.rec.frames_sent += frames;
+    }
+    fn push_frame(&mut self, f: &Frame) {
+        let b = f.encode();
+        self.push_bytes(&b, 1);
+    }
+    fn mark(&mut self, m: Mark) {
+        self.marks.push_back((self.out_total, m));
+    }
+
+    /// Apply the ledger effects of everything that is completely on the wire.
+    fn apply_marks(&mut self, now: u64) {
+        let wire = self.tr.plain_on_wire();
+        while let Some((off, _)) = self.marks.front() {
+            if *off > wire { break; }
+            let (_, m) = self.marks.pop_front().unwrap();
+            match m {
+                Mark::Wu { stream: 0, inc } => self.conn_recv_window += inc as i64,
+                Mark::Wu { stream, inc } => {
+                    if let Some(s) = self.rec.streams.get_mut(&stream) { s.recv_window += inc as i64; }
+                }
+                Mark::EndStream(id) => {
+                    if let Some(s) = self.rec.streams.get_mut(&id) { s.sent_end_wire = true; s.t_sent_end = now; }
+                }
+                Mark::Rst(id) => {
+                    if let Some(s) = self.rec.streams.get_mut(&id) { s.sent_rst_wire = true; }
+                }
+                Mark::Settings(idx) => self.rec.settings_sent[idx].t_wire = Some(now),
+            }
+        }
+    }
+
+    fn send_settings(&mut self, now: u64, params: Vec<(u16, u32)>) {
+        let idx = self.rec.settings_sent.len();
+        self.rec.settings_sent.push(SettingsSent { t_queued: now, params: params.clone(), t_wire: None, t_acked: None });
+        self.push_frame(&Frame::Settings { ack: false, params: params.clone() });
+        self.mark(Mark::Settings(idx));
+        self.unacked.push_back((idx, params));
+    }
+    fn send_rst(&mut self, now: u64, stream: u32, code: u32) {
+        self.push_frame(&Frame::RstStream { stream, code });
+        self.mark(Mark::Rst(stream));
+        self.rec.rst_sent.push((now, stream, code));
+        if let Some(s) = self.rec.streams.get_mut(&stream) { s.sent_rst = Some(code); s.t_rst = now; }
+        self.tx.remove(&stream);
+    }
+    fn send_goaway(&mut self, now: u64, last_stream: u32, code: u32) {
+        self.push_frame(&Frame::GoAway { last_stream, code, debug: vec![] });
+        if self.rec.goaway_sent.is_none() { self.rec.goaway_sent = Some((now, code)); }
+    }
+
+    fn new_stream_rec(&mut self, id: u32, by_us: bool, now: u64) -> &mut StreamRec {
+        self.streams_opened += 1;
+        if by_us { self.rec.counters.streams_opened_by_us += 1; } else { self.rec.counters.streams_opened_by_peer += 1; }
+        let rw = self.acked.initial_window as i64;
+        let sw = self.peer.initial_window as i64;
+        self.rec.streams.entry(id).or_insert_with(|| StreamRec { id, opened_by_us: by_us, t_open: now, recv_window: rw, min_recv_window: rw, send_window: sw, ..Default::default() })
+    }
+    fn in_flight_ours(&self) -> u32 {
+        self.rec.streams.values().filter(|s| s.opened_by_us && !s.closed()).count() as u32
+    }
+
+    /// HEADERS (+ CONTINUATION) for one header block, contiguous in the output.
+    fn emit_header_block(&mut self, stream: u32, block: &[u8], end_stream: bool, cont_split: &[usize], priority: Option<Priority>, pad: Option<u8>) {
+        let maxf = self.peer.max_frame as usize;
+        let overhead = pad.map_or(0, |p| 1 + p as usize) + if priority.is_some() { 5 } else { 0 };
+        let mut sizes: Vec<usize> = Vec::new();
+        let mut left = block.len();
+        for (i, s) in cont_split.iter().enumerate() {
+            let cap = if i == 0 { maxf.saturating_sub(overhead) } else { maxf };
+            let n = (*s).min(left).min(cap);
+            sizes.push(n);
+            left -= n;
+        }
+        while left > 0 || sizes.is_empty() {
+            let cap = if sizes.is_empty() { maxf.saturating_sub(overhead).max(1) } else { maxf };
+            let n = left.min(cap);
+            sizes.push(n);
+            left -= n;
+        }
+        let mut off = 0;
+        let last = sizes.len() - 1;
+        for (i, n) in sizes.iter().enumerate() {
+            let fragment = block[off..off + n].to_vec();
+            off += n;
+            if i == 0 {
+                self.push_frame(&Frame::Headers { stream, end_stream, end_headers: i == last, priority, fragment, pad });
+            } else {
+                self.push_frame(&Frame::Continuation { stream, end_headers: i == last, fragment });
+            }
+        }
+        if end_stream {
+            self.mark(Mark::EndStream(stream));
+            if let Some(s) = self.rec.streams.get_mut(&stream) { s.sent_end = true; }
+        }
+    }
+
+    // ---------------------------------------------------------------- inbound
+
+    fn on_frame(&mut self, w: &mut World, raw: RawFrame) {
+        let now = w.now;
+        let h = raw.head;
+        w.tr(0x2F00 + h.ty as u64, ((h.stream as u64) << 32) ^ ((h.flags as u64) << 24) ^ h.len as u64);
+        self.rec.frames_recv_total += 1;
+        *self.rec.frames_recv.entry(h.ty).or_insert(0) += 1;
+        if h.len > self.rec.counters.max_frame_seen { self.rec.counters.max_frame_seen = h.len; }
+        // ---- frame size against what we advertised
+        if h.len > self.acked.max_frame {
+            let kind = if h.len <= self.relaxed(sid::MAX_FRAME_SIZE, self.acked.max_frame) { "frame_too_large_pre_ack" } else { "frame_too_large" };
+            self.violate(now, kind, h.stream, format!("{} frame of {} octets, our MAX_FRAME_SIZE in force is {}", type_name(h.ty), h.len, self.acked.max_frame));
+        }
+        // ---- a header block in progress admits nothing but its CONTINUATION
+        if let Some(c) = &self.cont {
+            if h.ty != ftype::CONTINUATION || h.stream != c.stream {
+                let cs = c.stream;
+                self.violate(now, "continuation_interleaved", h.stream, format!("{} on stream {} while the header block of stream {cs} is open", type_name(h.ty), h.stream));
+                self.cont = None;
+            }
+        } else if h.ty == ftype::CONTINUATION {
+            self.violate(now, "continuation_interleaved", h.stream, "CONTINUATION without a preceding HEADERS".into());
+            return;
+        }
+        let frame = match Frame::parse(&raw) {
+            Ok(f) => f,
+            Err(e) => {
+                self.violate(now, "malformed_frame", h.stream, format!("{} len={} flags={:#x}: {}", type_name(h.ty), h.len, h.flags, e.why));
+                if h.ty == ftype::DATA { self.account_data(now, h.stream, h.len as u64); }
+                return;
+            }
+        };
+        match frame {
+            Frame::Settings { ack: false, params } => {
+                self.rec.peer_settings.push((now, params.clone()));
+                for (id, v) in &params {
+                    let bad = match *id {
+                        sid::ENABLE_PUSH => *v > 1,
+                        sid::INITIAL_WINDOW_SIZE => *v as i64 > MAX_WINDOW,
+                        sid::MAX_FRAME_SIZE => *v < DEFAULT_MAX_FRAME || *v > 0xff_ffff,
+                        _ => false,
+                    };
+                    if bad { self.violate(now, "invalid_settings_value", 0, format!("setting {id:#x} = {v}")); continue; }
+                    if *id == sid::INITIAL_WINDOW_SIZE {
+                        let delta = *v as i64 - self.peer.initial_window as i64;
+                        for s in self.rec.streams.values_mut() {
+                            if !s.sent_end && s.sent_rst.is_none() && s.recv_rst.is_none() { s.send_window += delta; }
+                        }
+                    }
+                    if *id == sid::HEADER_TABLE_SIZE { self.enc.on_peer_table_size(*v); }
+                    self.peer.set(*id, *v);
+                }
+                match self.plan.ack_settings {
+                    AckPolicy::Immediate => self.acks_owed.push_back(now),
+                    AckPolicy::Delay(d) => self.acks_owed.push_back(now + d),
+                    AckPolicy::Never => {}
+                }
+            }
+            Frame::Settings { ack: true, .. } => {
+                self.rec.settings_acks_recv += 1;
+                let Some((idx, params)) = self.unacked.pop_front() else {
+                    self.violate(now, "unexpected_settings_ack", 0, "SETTINGS ACK with none of ours outstanding".into());
+                    return;
+                };
+                self.rec.settings_sent[idx].t_acked = Some(now);
+                for (id, v) in params {
+                    match id {
+                        sid::INITIAL_WINDOW_SIZE if v as i64 <= MAX_WINDOW => {
+                            let delta = v as i64 - self.acked.initial_window as i64;
+                            for s in self.rec.streams.values_mut() {
+                                if s.receiving() {
+                                    s.recv_window += delta;
+                                    if s.recv_window < s.min_recv_window { s.min_recv_window = s.recv_window; }
+                                    if s.recv_window < 0 && delta < 0 { self.rec.counters.negative_window_settings_applied += 1; }
+                                }
+                            }
+                            self.acked.initial_window = v;
+                        }
+                        sid::HEADER_TABLE_SIZE => { self.dec.on_settings_acked(v); self.acked.header_table_size = v; }
+                        sid::MAX_FRAME_SIZE if (DEFAULT_MAX_FRAME..=0xff_ffff).contains(&v) => self.acked.max_frame = v,
+                        sid::MAX_CONCURRENT_STREAMS | sid::MAX_HEADER_LIST_SIZE | sid::ENABLE_PUSH => self.acked.set(id, v),
+                        _ => {}
+                    }
+                }
+            }
+            Frame::Ping { ack, data } => {
+                if self.rec.pings_recv.len() < 4096 { self.rec.pings_recv.push((now, data, ack)); }
+                if !ack && self.plan.answer_pings { self.pings_owed.push_back(data); }
+            }
+            Frame::GoAway { last_stream, code, debug } => {
+                self.rec.goaways.push(GoAwayRec { t: now, last_stream, code, debug });
+                for s in self.rec.streams.values_mut() {
+                    if s.opened_by_us && s.id > last_stream && !s.closed() { s.refused_by_goaway = true; }
+                }
+                let refused: Vec<u32> = self.rec.streams.values().filter(|s| s.refused_by_goaway).map(|s| s.id).collect();
+                for id in refused { self.tx.remove(&id); }
+            }
+            Frame::WindowUpdate { stream, increment } => {
+                if self.rec.window_updates_recv.len() < 4096 { self.rec.window_updates_recv.push((now, stream, increment)); }
+                if increment == 0 {
+                    self.violate(now, "zero_window_increment", stream, "WINDOW_UPDATE with increment 0".into());
+                    return;
+                }
+                if stream == 0 {
+                    self.rec.conn_wu_recv += increment as u64;
+                    self.conn_send_window += increment as i64;
+                    if self.conn_send_window > MAX_WINDOW { self.violate(now, "window_overflow", 0, format!("connection send window {} > 2^31-1", self.conn_send_window)); }
+                } else if let Some(s) = self.rec.streams.get_mut(&stream) {
+                    s.wu_recv += increment as u64;
+                    s.send_window += increment as i64;
+                    if s.send_window > MAX_WINDOW {
+                        let sw = s.send_window;
+                        self.violate(now, "window_overflow", stream, format!("stream send window {sw} > 2^31-1"));
+                    }
+                } else {
+                    self.violate(now, "frame_on_idle_stream", stream, "WINDOW_UPDATE on a stream that was never opened".into());
+                }
+            }
+            Frame::RstStream { stream, code } => {
+                self.rec.rst_recv.push((now, stream, code));
+                match self.rec.streams.get_mut(&stream) {
+                    Some(s) => {
+                        if s.recv_rst.is_none() { s.recv_rst = Some(code); s.t_rst = now; }
+                        self.tx.remove(&stream);
+                        self.resp_queue.retain(|p| p.stream != stream);
+                    }
+                    None => self.violate(now, "frame_on_idle_stream", stream, format!("RST_STREAM({}) on a stream that was never opened", ecode_name(code))),
+                }
+            }
+            Frame::Priority { .. } | Frame::Unknown { .. } => {}
+            Frame::PushPromise { stream, promised, .. } => {
+                self.violate(now, "push_promise", stream, format!("PUSH_PROMISE promising stream {promised}"));
+            }
+            Frame::Headers { stream, end_stream, end_headers, fragment, .. } => {
+                if end_headers {
+                    self.on_header_block(w, stream, &fragment, end_stream, 1);
+                } else {
+                    self.cont = Some(Cont { stream, end_stream, block: fragment, frames: 1 });
+                }
+            }
+            Frame::Continuation { stream, end_headers, fragment } => {
+                if let Some(c) = self.cont.as_mut() {
+                    c.block.extend_from_slice(&fragment);
+                    c.frames += 1;
+                    if end_headers {
+                        let c = self.cont.take().unwrap();
+                        self.on_header_block(w, stream, &c.block, c.end_stream, c.frames);
+                    }
+                }
+            }
+            Frame::Data { stream, end_stream, data, pad } => {
+                self.account_data(now, stream, h.len as u64);
+                self.on_data(now, stream, &data, pad, end_stream);
+            }
+        }
+    }
+
+    /// Flow-control ledger for one DATA frame of `flen` octets (padding included).
+    fn account_data(&mut self, now: u64, stream: u32, flen: u64) {
+        self.rec.data_bytes_recv += flen;
+        self.last_recv_progress = now;
+        if flen > 0 {
+            if self.owed_conn == 0 { self.owed_conn_since = now; }
+            self.owed_conn += flen;
+            self.conn_recv_window -= flen as i64;
+            if self.conn_recv_window < self.rec.min_conn_recv_window { self.rec.min_conn_recv_window = self.conn_recv_window; }
+            if self.conn_recv_window == 0 { self.rec.counters.conn_window_zero_hits += 1; }
+            if self.conn_recv_window < 0 {
+                let cw = self.conn_recv_window;
+                self.violate(now, "conn_window_exceeded", stream, format!("DATA of {flen} octets leaves the connection window we granted at {cw}"));
+            }
+        }
+        let relax = (self.relaxed(sid::INITIAL_WINDOW_SIZE, self.acked.initial_window) as i64 - self.acked.initial_window as i64).max(0);
+        let mut v: Option<(&str, i64)> = None;
+        if let Some(s) = self.rec.streams.get_mut(&stream) {
+            if s.receiving() && s.sent_rst.is_none() && flen > 0 {
+                if s.owed == 0 { s.owed_since = now; }
+                s.owed += flen;
+                s.recv_window -= flen as i64;
+                if s.recv_window < s.min_recv_window { s.min_recv_window = s.recv_window; }
+                if s.recv_window == 0 { self.rec.counters.stream_window_zero_hits += 1; }
+                if s.recv_window < 0 {
+                    v = Some((if s.recv_window + relax >= 0 { "stream_window_exceeded_pre_ack" } else { "stream_window_exceeded" }, s.recv_window));
+                }
+            }
+        }
+        if let Some((kind, sw)) = v {
+            self.violate(now, kind, stream, format!("DATA of {flen} octets leaves the stream window we granted at {sw}"));
+        }
+    }
+
+    fn on_data(&mut self, now: u64, stream: u32, data: &[u8], pad: Option<u8>, end_stream: bool) {
+        let Some(s) = self.rec.streams.get_mut(&stream) else {
+            let ours = (stream % 2 == 1) == (self.role == Role::Client);
+            let idle = if ours { stream >= self.next_stream_id } else { stream > self.last_peer_stream };
+            if self.rec.goaway_sent.is_some() && !ours { return; }
+            self.violate(now, if idle { "data_on_idle_stream" } else { "data_on_closed_stream" }, stream, format!("DATA ({} octets) on a stream that is not open", data.len()));
+            return;
+        };
+        if s.sent_rst.is_some() && s.recv_rst.is_none() && !s.recv_end {
+            // frames in flight when our RST_STREAM left: tolerated (RFC 9113 §5.1), still counted above
+            self.rec.counters.data_after_our_rst += 1;
+            return;
+        }
+        if s.recv_end || s.recv_rst.is_some() {
+            let why = if s.recv_end { "after sozu's own END_STREAM" } else { "after sozu's own RST_STREAM" };
+            self.violate(now, "data_on_closed_stream", stream, format!("DATA ({} octets) {why}", data.len()));
+            return;
+        }
+        if s.t_headers == 0 && s.interim.is_empty() && s.headers.is_empty() {
+            s.header_issues.push("DATA before any header block".into());
+        }
+        s.data_frames += 1;
+        s.padding_bytes += pad.map_or(0, |p| p as u64 + 1);
+        if s.sim_id.is_some() { s.check.feed(data); }
+        if s.body_head.len() < 512 {
+            let k = (512 - s.body_head.len()).min(data.len());
+            s.body_head.extend_from_slice(&data[..k]);
+        }
+        s.body_len += data.len() as u64;
+        if end_stream {
+            s.recv_end = true;
+            s.recv_end_on = if data.is_empty() { "empty_data" } else { "data" }.into();
+            s.t_end = now;
+            s.owed = 0;
+        }
+    }
+
+    fn on_header_block(&mut self, w: &mut World, stream: u32, block: &[u8], end_stream: bool, frames: u32) {
+        let now = w.now;
+        // ---- HPACK (always decoded, whatever the stream, to keep the shared state)
+        let decoded = match self.dec.decode(block) {
+            Ok(d) => {
+                if d.update_exceeds_advertised { self.violate(now, "hpack_table_exceeded", stream, format!("table size update {:?}, advertised {}", d.size_updates, self.dec.allowed)); }
+                if d.missing_size_update { self.violate(now, "hpack_missing_size_update", stream, "first header block after our acknowledged HEADER_TABLE_SIZE reduction does not start with a table size update".into()); }
+                Some(d)
+            }
+            Err(e) => {
+                let kind = if e.contains("InvalidMaxDynamicSize") { "hpack_table_exceeded" } else { "hpack_decode_error" };
+                self.violate(now, kind, stream, format!("decoder holding our advertised table size {} rejects the block: {e}", self.dec.allowed));
+                None
+            }
+        };
+        let fields = decoded.map(|d| d.fields).unwrap_or_default();
+        // ---- which stream
+        let ours = (stream % 2 == 1) == (self.role == Role::Client);
+        if !self.rec.streams.contains_key(&stream) {
+            if ours || self.role == Role::Client {
+                self.violate(now, "illegal_stream_id", stream, if ours { "HEADERS on a stream of ours that we never opened".to_string() } else { format!("sozu opened stream {stream} towards a client") });
+                return;
+            }
+            if stream % 2 == 0 || stream <= self.last_peer_stream {
+                self.violate(now, "illegal_stream_id", stream, format!("new stream {stream} after stream {} (ids must be odd and strictly increasing)", self.last_peer_stream));
+                return;
+            }
+            self.last_peer_stream = stream;
+            if self.rec.goaway_sent.is_some() {
+                self.rec.counters.streams_after_our_goaway += 1;
+                return;
+            }
+            let open = self.rec.streams.values().filter(|s| !s.opened_by_us && !s.closed_on_wire()).count() as u32 + 1;
+            if open > self.rec.counters.max_concurrent_seen { self.rec.counters.max_concurrent_seen = open; }
+            if open > self.acked.max_concurrent {
+                let kind = if open <= self.relaxed(sid::MAX_CONCURRENT_STREAMS, self.acked.max_concurrent) { "too_many_streams_pre_ack" } else { "too_many_streams" };
+                self.violate(now, kind, stream, format!("{open} streams open, our MAX_CONCURRENT_STREAMS in force is {}", self.acked.max_concurrent));
+            }
+            self.new_stream_rec(stream, false, now);
+        }
+        let list_size: u64 = fields.iter().map(|(n, v)| n.len() as u64 + v.len() as u64 + 32).sum();
+        let max_list = self.acked.max_header_list;
+        let role = self.role;
+        let s = self.rec.streams.get_mut(&stream).unwrap();
+        s.header_frames += frames;
+        if s.recv_end || s.recv_rst.is_some() {
+            self.violate(now, "headers_on_closed_stream", stream, "HEADERS after sozu ended or reset the stream".into());
+            return;
+        }
+        if s.sent_rst.is_some() { return; }
+        let status: Option<u16> = fields.iter().find(|(n, _)| n == ":status").and_then(|(_, v)| v.parse().ok());
+        let first = s.headers.is_empty() && s.t_headers == 0;
+        if first && role == Role::Client && status.map_or(false, |c| (100..200).contains(&c) && c != 101) {
+            s.interim.push(status.unwrap());
+            if end_stream { s.header_issues.push("END_STREAM on an interim response".into()); }
+        } else if first {
+            s.header_issues.extend(header_issues(&fields, role));
+            s.header_list_size = list_size;
+            s.status = status;
+            s.sim_id = fields.iter().find(|(n, _)| n == "x-sim-id").and_then(|(_, v)| v.trim().parse().ok());
+            if let Some(id) = s.sim_id { s.check = BodyCheck::new(id * 2 + if role == Role::Server { 0 } else { 1 }); }
+            s.headers = fields;
+            s.t_headers = now;
+            if end_stream { s.recv_end = true; s.recv_end_on = "headers".into(); s.t_end = now; }
+        } else {
+            if !end_stream { s.header_issues.push("trailing HEADERS without END_STREAM".into()); }
+            if fields.iter().any(|(n, _)| n.starts_with(':')) { s.header_issues.push("pseudo-header in trailers".into()); }
+            s.trailers = fields;
+            if end_stream { s.recv_end = true; s.recv_end_on = "trailers".into(); s.t_end = now; s.owed = 0; }
+        }
+        let (sim_id, t_headers_now) = (s.sim_id, first && s.t_headers == now && !s.headers.is_empty());
+        if list_size > max_list as u64 {
+            self.violate(now, "header_list_too_large", stream, format!("header list of {list_size} octets, our MAX_HEADER_LIST_SIZE in force is {max_list}"));
+        }
+        // ---- server role: schedule the answer
+        if role == Role::Server && t_headers_now {
+            let spec = sim_id.and_then(|id| self.responses.get(&id).cloned()).or_else(|| self.default_resp.clone());
+            if let Some(spec) = spec {
+                let ready_at = match spec.respond_on { RespondOn::Headers => Some(now + spec.delay_ns), RespondOn::EndStream => None };
+                self.resp_queue.push(PendingResp { stream, id: sim_id, spec, ready_at });
+            }
+        }
+    }
+
+    // ---------------------------------------------------------------- outbound: control
+
+    fn when_reached(&self, wh: &When, now: u64) -> bool {
+        match wh {
+            When::RecvData(n) => self.rec.data_bytes_recv >= *n,
+            When::RecvFrames(n) => self.rec.frames_recv_total >= *n,
+            When::SentData(n) => self.rec.data_bytes_sent >= *n,
+            When::StreamsOpened(n) => self.streams_opened >= *n,
+            When::AfterNs(d) => now >= self.t_start + *d,
+        }
+    }
+
+    fn wu_amount(mode: &WuMode, owed: u64, window: i64, since: u64, now: u64, force: bool) -> u64 {
+        if owed == 0 { return 0; }
+        if force { return owed; }
+        match mode {
+            WuMode::Eager => owed,
+            WuMode::Drip(n) => owed.min((*n).max(1) as u64),
+            WuMode::Threshold(n) => if owed >= *n as u64 { owed } else { 0 },
+            WuMode::WhenExhausted => if window <= 0 { owed } else { 0 },
+            WuMode::Late(d) => if now >= since + *d { owed } else { 0 },
+            WuMode::Never => 0,
+        }
+    }
+
+    /// Control frames that are due. Returns true if anything was queued.
+    fn gen_control(&mut self, now: u64) -> bool {
+        let before = self.out_total;
+        if !self.started {
+            self.started = true;
+            self.t_start = now;
+            if self.role == Role::Client { self.push_bytes(PREFACE, 0); }
+            let params = self.plan.settings.params();
+            self.send_settings(now, params);
+            if self.plan.conn_window_bonus > 0 {
+                let inc = self.plan.conn_window_bonus;
+                self.push_frame(&Frame::WindowUpdate { stream: 0, increment: inc });
+                self.mark(Mark::Wu { stream: 0, inc });
+            }
+        }
+        if self.in_cont_flood { return self.out_total > before; }
+        while self.acks_owed.front().map_or(false, |t| *t <= now) {
+            self.acks_owed.pop_front();
+            self.push_frame(&Frame::Settings { ack: true, params: vec![] });
+            self.rec.settings_acks_sent += 1;
+        }
+        while let Some(d) = self.pings_owed.pop_front() {
+            self.push_frame(&Frame::Ping { ack: true, data: d });
+        }
+        for i in 0..self.plan.changes.len() {
+            if !self.changes_done[i] && self.when_reached(&self.plan.changes[i].when.clone(), now) {
+                self.changes_done[i] = true;
+                let params = self.plan.changes[i].settings.params();
+                self.send_settings(now, params);
+            }
+        }
+        // ---- cancellations of our own streams
+        let due: Vec<(u32, u32)> = self.tx.iter().filter_map(|(id, t)| {
+            let c = t.cancel.as_ref()?;
+            let s = self.rec.streams.get(id)?;
+            let hit = c.after_sent_body.map_or(false, |n| s.sent_body >= n) || c.after_recv_body.map_or(false, |n| s.body_len >= n && (n > 0 || s.t_headers > 0));
+            if hit { Some((*id, c.code)) } else { None }
+        }).collect();
+        for (id, code) in due { self.send_rst(now, id, code); }
+        // ---- WINDOW_UPDATE
+        let force = self.plan.wu.fallback_ns > 0 && now >= self.last_recv_progress + self.plan.wu.fallback_ns;
+        let n = Self::wu_amount(&self.plan.wu.conn, self.owed_conn, self.conn_recv_window, self.owed_conn_since, now, force);
+        if n > 0 {
+            self.owed_conn -= n;
+            self.owed_conn_since = now;
+            self.push_frame(&Frame::WindowUpdate { stream: 0, increment: n as u32 });
+            self.mark(Mark::Wu { stream: 0, inc: n as u32 });
+            self.rec.counters.window_updates_sent += 1;
+        }
+        let mode = self.plan.wu.stream.clone();
+        let grants: Vec<(u32, u64)> = self.rec.streams.values().filter(|s| s.owed > 0 && s.receiving() && s.sent_rst.is_none())
+            .filter_map(|s| { let n = Self::wu_amount(&mode, s.owed, s.recv_window, s.owed_since, now, force); if n > 0 { Some((s.id, n)) } else { None } }).collect();
+        for (id, n) in grants {
+            let s = self.rec.streams.get_mut(&id).unwrap();
+            s.owed -= n;
+            s.owed_since = now;
+            self.push_frame(&Frame::WindowUpdate { stream: id, increment: n as u32 });
+            self.mark(Mark::Wu { stream: id, inc: n as u32 });
+            self.rec.counters.window_updates_sent += 1;
+        }
+        self.out_total > before
+    }
+
+    /// Earliest virtual time at which a timed control action becomes due.
+    fn next_timer(&self, now: u64) -> Option<u64> {
+        let mut t: Option<u64> = None;
+        let mut add = |x: u64| { if x > now { t = Some(t.map_or(x, |y: u64| y.min(x))); } };
+        if let Some(a) = self.acks_owed.front() { add(*a); }
+        for (i, c) in self.plan.changes.iter().enumerate() {
+            if let (false, When::AfterNs(d)) = (self.changes_done[i], &c.when) { add(self.t_start + *d); }
+        }
+        let any_owed = self.owed_conn > 0 || self.rec.streams.values().any(|s| s.owed > 0 && s.receiving());
+        if any_owed {
+            if self.plan.wu.fallback_ns > 0 { add(self.last_recv_progress + self.plan.wu.fallback_ns); }
+            if let (WuMode::Late(d), true) = (&self.plan.wu.conn, self.owed_conn > 0) { add(self.owed_conn_since + *d); }
+            if let WuMode::Late(d) = &self.plan.wu.stream {
+                for s in self.rec.streams.values() { if s.owed > 0 && s.receiving() { add(s.owed_since + *d); } }
+            }
+        }
+        for p in &self.resp_queue { if let Some(r) = p.ready_at { add(r); } }
+        if self.sleep_until > now { add(self.sleep_until); }
+        if self.req_ready_at > now { add(self.req_ready_at); }
+        if self.abuse_until > now && !self.abuse_q.is_empty() { add(self.abuse_until); }
+        if self.give_up_at > 0 { add(self.give_up_at); }
+        if self.phase == 1 { add(self.linger_until); }
+        t
+    }
+
+    // ---------------------------------------------------------------- outbound: messages
+
+    fn make_tx(key: u64, body: &BodyPlan, cancel: Option<Cancel>, fault: Option<H2RespFault>) -> Tx {
+        Tx { key, body_len: body.len as u64, frames: body.frames.iter().copied().collect(), pad: body.pad.clone(), pad_i: 0, end: body.end.clone(), cancel, fault, done: false }
+    }
+
+    fn open_request(&mut self, now: u64, r: &H2ReqSpec) {
+        let id = self.next_stream_id;
+        self.next_stream_id += 2;
+        self.last_opened_by_us = id;
+        let left_open = r.body.end == EndMode::Never;
+        let s = self.new_stream_rec(id, true, now);
+        s.req_id = Some(r.id);
+        s.left_open_by_plan = left_open;
+        let block = match &r.raw_block { Some(b) => b.clone(), None => { let l = r.header_list(self.is_tls); self.enc.encode_block(&l) } };
+        let end_now = r.body.len == 0 && r.body.frames.is_empty() && r.body.end == EndMode::Auto;
+        self.emit_header_block(id, &block, end_now, &r.cont_split, r.priority, r.headers_pad);
+        if !end_now || r.cancel.is_some() {
+            let mut t = Self::make_tx(r.id * 2, &r.body, r.cancel.clone(), None);
+            t.done = end_now;
+            self.tx.insert(id, t);
+        }
+    }
+
+    fn start_response(&mut self, now: u64, p: PendingResp) {
+        let Some(s) = self.rec.streams.get(&p.stream) else { return };
+        if s.closed() { return; }
+        if !p.spec.abuse.is_empty() {
+            for (i, op) in p.spec.abuse.iter().enumerate() { self.abuse_q.push_back((1000 + i, op.clone())); }
+            self.abuse_stream = p.stream;
+            return;
+        }
+        if let Some(H2RespFault::Refuse(code)) = p.spec.fault { self.send_rst(now, p.stream, code); return; }
+        for st in &p.spec.interim {
+            let b = self.enc.encode_block(&[(":status".to_string(), st.to_string())]);
+            self.emit_header_block(p.stream, &b, false, &[], None, None);
+        }
+        let l = p.spec.header_list(p.id);
+        let block = self.enc.encode_block(&l);
+        let end_now = p.spec.body.len == 0 && p.spec.body.frames.is_empty() && p.spec.body.end == EndMode::Auto;
+        self.emit_header_block(p.stream, &block, end_now, &p.spec.cont_split, None, p.spec.headers_pad);
+        if !end_now {
+            self.tx.insert(p.stream, Self::make_tx(p.id.unwrap_or(0) * 2 + 1, &p.spec.body, None, p.spec.fault.clone()));
+        }
+    }
+
+    /// One DATA frame (or the stream's terminator) for `id`. Returns true if something was queued.
+    fn gen_data(&mut self, now: u64, id: u32) -> bool {
+        let (peer_max, conn_w) = (self.peer.max_frame as i64, self.conn_send_window);
+        let Some(t) = self.tx.get_mut(&id) else { return false };
+        let Some(s) = self.rec.streams.get_mut(&id) else { return false };
+        if t.done { return false; }
+        let left = t.body_len - s.sent_body;
+        // ---- body finished: terminator
+        if left == 0 && t.frames.iter().all(|n| *n != 0) {
+            t.done = true;
+            match t.end.clone() {
+                EndMode::Auto if t.body_len == 0 => {
+                    // empty body announced by frames only: close with an empty DATA frame
+                    self.push_frame(&Frame::Data { stream: id, end_stream: true, data: vec![], pad: None });
+                }
+                EndMode::EmptyData => self.push_frame(&Frame::Data { stream: id, end_stream: true, data: vec![], pad: None }),
+                EndMode::Trailers(tr) => {
+                    let b = self.enc.encode_block(&tr);
+                    self.emit_header_block(id, &b, true, &[], None, None);
+                    return true;
+                }
+                EndMode::Auto | EndMode::Never => return false,
+            }
+            self.mark(Mark::EndStream(id));
+            self.rec.streams.get_mut(&id).unwrap().sent_end = true;
+            return true;
+        }
+        // ---- next DATA frame
+        let pad = if t.pad.is_empty() { None } else { let p = t.pad[t.pad_i % t.pad.len()]; p };
+        let overhead = pad.map_or(0, |p| 1 + p as i64);
+        let scripted = t.frames.front().copied();
+        let want = scripted.map_or(left, |n| (n as u64).min(left)) as i64;
+        let mut n = want;
+        if want > 0 || overhead > 0 {
+            let room = conn_w.min(s.send_window).min(peer_max) - overhead;
+            if room < want {
+                if conn_w - overhead < want { self.rec.counters.send_blocked_conn += 1; }
+                if s.send_window - overhead < want { self.rec.counters.send_blocked_stream += 1; }
+            }
+            if room <= 0 && want > 0 || room < 0 { return false; }
+            n = want.min(room);
+        }
+        let n = n as u64;
+        match scripted {
+            Some(sz) if (sz as u64) > n && left > n => { *t.frames.front_mut().unwrap() = sz - n as usize; }
+            Some(_) => { t.frames.pop_front(); }
+            None => {}
+        }
+        if !t.pad.is_empty() { t.pad_i += 1; }
+        let data: Vec<u8> = (s.sent_body..s.sent_body + n).map(|i| gen_byte(t.key, i)).collect();
+        s.sent_body += n;
+        s.send_window -= n as i64 + overhead;
+        self.conn_send_window -= n as i64 + overhead;
+        self.rec.data_bytes_sent += n;
+        let end_stream = t.end == EndMode::Auto && s.sent_body == t.body_len && t.body_len > 0;
+        if end_stream { t.done = true; s.sent_end = true; }
+        let (sent, fault) = (s.sent_body, t.fault.clone());
+        self.push_frame(&Frame::Data { stream: id, end_stream, data, pad });
+        if end_stream { self.mark(Mark::EndStream(id)); }
+        // ---- scripted faults of the answering side
+        match fault {
+            Some(H2RespFault::RstAfterBody(b, code)) if sent >= b => self.send_rst(now, id, code),
+            Some(H2RespFault::GoAwayAfterBody { body, code, close }) if sent >= body => {
+                let last = self.last_peer_stream;
+                self.send_goaway(now, last, code);
+                if let Some(t) = self.tx.get_mut(&id) { t.fault = None; }
+                if close { self.close_after_flush = true; }
+            }
+            Some(H2RespFault::CloseAfterBody(b)) if sent >= b => self.close_after_flush = true,
+            _ => {}
+        }
+        true
+    }
+
+    /// Streams that could send now, in id order.
+    fn sendable(&self) -> Vec<u32> {
+        self.tx.iter().filter(|(id, t)| !t.done && self.rec.streams.get(id).map_or(false, |s| !s.closed() && !s.sent_end)).map(|(id, _)| *id).collect()
+    }
+
+    // ---------------------------------------------------------------- outbound: abuse
+
+    fn resolve(&mut self, r: &StreamRef) -> u32 {
+        match r {
+            StreamRef::Conn => 0,
+            StreamRef::Id(n) => *n,
+            StreamRef::Fresh => self.fresh_stream(0),
+            StreamRef::Idle(k) => self.next_stream_id + 2 * k,
+            StreamRef::LastOpened => if self.role == Role::Client { self.last_opened_by_us } else { self.abuse_stream.max(self.last_peer_stream) },
+            StreamRef::LastClosed => self.rec.streams.values().rev().find(|s| (s.opened_by_us || self.role == Role::Server) && s.closed()).map_or(self.last_opened_by_us, |s| s.id),
+        }
+    }
+    /// use up the next stream id of ours (client role) and register it
+    fn fresh_stream(&mut self, now: u64) -> u32 {
+        let id = self.next_stream_id;
+        self.next_stream_id += 2;
+        self.last_opened_by_us = id;
+        self.new_stream_rec(id, true, now);
+        if let Some(a) = self.rec.abuse_sent.last_mut() { if a.streams.len() < 64 { a.streams.push(id); } }
+        id
+    }
+    fn plain_request_block(&mut self, method: &str, authority: &str, path: &str, extra: &[(String, String)]) -> Vec<u8> {
+        let mut l: Vec<(String, String)> = vec![(":method".into(), method.into()), (":scheme".into(), if self.is_tls { "https" } else { "http" }.into()), (":authority".into(), authority.into()), (":path".into(), path.into())];
+        l.extend_from_slice(extra);
+        self.enc.encode_block(&l)
+    }
+
+    /// One burst of the abuse op at the head of the queue. Returns true if bytes were queued.
+    fn abuse_step(&mut self, now: u64) -> bool {
+        let Some((idx, op)) = self.abuse_q.front().cloned() else { return false };
+        if now < self.abuse_until { return false; }
+        if self.abuse_i == 0 {
+            self.rec.abuse_sent.push(AbuseSent { op: idx, t_start: now, t_end: now, frames: 0, bytes: 0, streams: vec![] });
+        }
+        let (bytes0, frames0) = (self.out_total, self.rec.frames_sent);
+        let (total, rate) = match &op {
+            AbuseOp::RapidReset { count, rate, .. } | AbuseOp::PingFlood { count, rate, .. } | AbuseOp::SettingsFlood { count, rate, .. } => (*count, rate.clone()),
+            AbuseOp::ContinuationFlood { count, rate, .. } | AbuseOp::EmptyDataFlood { count, rate, .. } => (*count + 1, rate.clone()),
+            AbuseOp::WindowUpdate { count, .. } => (*count, Rate::all_at_once()),
+            _ => (1, Rate::all_at_once()),
+        };
+        let upto = total.min(self.abuse_i.saturating_add(rate.burst.max(1)));
+        for i in self.abuse_i..upto {
+            match &op {
+                AbuseOp::Raw(b) => self.push_bytes(b, 0),
+                AbuseOp::Garbage { len, seed } => {
+                    let b: Vec<u8> = (0..*len as u64).map(|i| gen_byte(*seed, i)).collect();
+                    self.push_bytes(&b, 0);
+                }
+                AbuseOp::Frame { ty, flags, stream, declared_len, payload } => {
+                    let sid_ = self.resolve(stream);
+                    let mut f = RawFrame::new(*ty, *flags, sid_, payload.clone());
+                    if let Some(l) = declared_len { f = f.with_declared_len(*l); }
+                    if *ty == ftype::SETTINGS && flags & flag::ACK == 0 && sid_ == 0 && declared_len.is_none() && payload.len() % 6 == 0 {
+                        // a well-formed SETTINGS of ours will be acknowledged: keep the ledger in step
+                        if let Ok(Frame::Settings { params, .. }) = Frame::parse(&f) {
+                            let idx = self.rec.settings_sent.len();
+                            self.rec.settings_sent.push(SettingsSent { t_queued: now, params: params.clone(), t_wire: None, t_acked: None });
+                            self.push_bytes(&f.encode(), 1);
+                            self.mark(Mark::Settings(idx));
+                            self.unacked.push_back((idx, params));
+                            continue;
+                        }
+                    }
+                    self.push_bytes(&f.encode(), 1);
+                }
+                AbuseOp::RapidReset { code, authority, path, end_stream, .. } => {
+                    let id = self.fresh_stream(now);
+                    let b = self.plain_request_block("GET", authority, &format!("{path}{i}"), &[]);
+                    self.emit_header_block(id, &b, *end_stream, &[], None, None);
+                    self.send_rst(now, id, *code);
+                }
+                AbuseOp::ContinuationFlood { count, frag_len, finish, authority, .. } => {
+                    if i == 0 {
+                        let id = self.fresh_stream(now);
+                        self.abuse_stream = id;
+                        let b = self.plain_request_block("GET", authority, "/continuation-flood", &[]);
+                        self.push_frame(&Frame::Headers { stream: id, end_stream: true, end_headers: false, priority: None, fragment: b, pad: None });
+                        self.in_cont_flood = true;
+                    } else {
+                        let mut frag = Vec::new();
+                        if *frag_len > 0 {
+                            let v = "c".repeat((*frag_len as usize).saturating_sub(12).max(1));
+                            HpackEncoder::literal(&mut frag, format!("x-c{}", i % 10).as_bytes(), v.as_bytes(), Repr::NoIndex, None, false);
+                        }
+                        let last = i == *count;
+                        self.push_frame(&Frame::Continuation { stream: self.abuse_stream, end_headers: last && *finish, fragment: frag });
+                        if last { self.in_cont_flood = false; }
+                    }
+                }
+                AbuseOp::PingFlood { ack, .. } => self.push_frame(&Frame::Ping { ack: *ack, data: (i as u64).to_be_bytes() }),
+                AbuseOp::SettingsFlood { params, .. } => self.send_settings(now, params.clone()),
+                AbuseOp::EmptyDataFlood { count, pad, end_stream_last, authority, .. } => {
+                    if i == 0 {
+                        let id = if self.role == Role::Client { self.fresh_stream(now) } else { self.abuse_stream };
+                        self.abuse_stream = id;
+                        if self.role == Role::Client {
+                            let b = self.plain_request_block("POST", authority, "/empty-data-flood", &[]);
+                            self.emit_header_block(id, &b, false, &[], None, None);
+                        } else {
+                            let b = self.enc.encode_block(&[(":status".to_string(), "200".to_string())]);
+                            self.emit_header_block(id, &b, false, &[], None, None);
+                        }
+                    } else {
+                        let end = i == *count && *end_stream_last;
+                        self.push_frame(&Frame::Data { stream: self.abuse_stream, end_stream: end, data: vec![], pad: *pad });
+                        if let Some(p) = pad { self.conn_send_window -= 1 + *p as i64; }
+                        if end {
+                            self.mark(Mark::EndStream(self.abuse_stream));
+                            if let Some(s) = self.rec.streams.get_mut(&self.abuse_stream) { s.sent_end = true; }
+                        }
+                    }
+                }
+                AbuseOp::OversizedHeaders { fields, field_len, authority } => {
+                    let id = self.fresh_stream(now);
+                    let extra: Vec<(String, String)> = (0..*fields).map(|k| (format!("x-big-{k}"), "h".repeat(*field_len as usize))).collect();
+                    let b = self.plain_request_block("GET", authority, "/oversized-headers", &extra);
+                    self.emit_header_block(id, &b, true, &[], None, None);
+                }
+                AbuseOp::WindowUpdate { stream, increment, .. } => {
+                    let sid_ = self.resolve(stream);
+                    self.push_frame(&Frame::WindowUpdate { stream: sid_, increment: *increment });
+                }
+                AbuseOp::HeadersOnClosed { authority } => {
+                    let sid_ = self.resolve(&StreamRef::LastClosed);
+                    let b = self.plain_request_block("GET", authority, "/headers-on-closed", &[]);
+                    self.push_frame(&Frame::Headers { stream: sid_, end_stream: true, end_headers: true, priority: None, fragment: b, pad: None });
+                }
+            }
+        }
+        self.abuse_i = upto;
+        if let Some(a) = self.rec.abuse_sent.last_mut() {
+            a.t_end = now;
+            a.frames += self.rec.frames_sent - frames0;
+            a.bytes += self.out_total - bytes0;
+        }
+        if upto >= total {
+            self.abuse_q.pop_front();
+            self.abuse_i = 0;
+            self.in_cont_flood = false;
+        } else if rate.gap_ns > 0 {
+            self.abuse_until = now + rate.gap_ns;
+        }
+        self.out_total > bytes0
+    }
+
+    // ---------------------------------------------------------------- outbound: scheduling
+
+    /// One payload unit. Returns true if something was queued or the script advanced.
+    fn gen_payload(&mut self, now: u64) -> bool {
+        if !self.abuse_q.is_empty() {
+            return self.abuse_step(now);
+        }
+        // ---- answers that are due (server role)
+        for p in self.resp_queue.iter_mut() {
+            if p.ready_at.is_none() {
+                if let Some(s) = self.rec.streams.get(&p.stream) { if s.recv_end { p.ready_at = Some(s.t_end + p.spec.delay_ns); } }
+            }
+        }
+        if let Some(i) = self.resp_queue.iter().position(|p| p.ready_at.map_or(false, |t| t <= now)) {
+            let p = self.resp_queue.remove(i);
+            self.start_response(now, p);
+            return true;
+        }
+        // ---- next step of the client script
+        if self.role == Role::Client && self.cursor < self.script.len() && now >= self.sleep_until && self.phase == 0 {
+            let gone = !self.rec.goaways.is_empty();
+            match self.script[self.cursor].clone() {
+                ClientOp::Req(r) => {
+                    if gone {
+                        self.rec.requests_not_sent.push(r.id);
+                        self.cursor += 1;
+                        return true;
+                    }
+                    if self.in_flight_ours() < self.max_concurrent.min(self.peer.max_concurrent) {
+                        if r.delay_ns > 0 && self.req_ready_at == 0 { self.req_ready_at = now + r.delay_ns; }
+                        if now >= self.req_ready_at {
+                            self.req_ready_at = 0;
+                            self.open_request(now, &r);
+                            self.cursor += 1;
+                            return true;
+                        }
+                    }
+                }
+                ClientOp::Abuse(op) => {
+                    self.abuse_q.push_back((self.cursor, op));
+                    self.cursor += 1;
+                    return self.abuse_step(now) || true;
+                }
+                ClientOp::WaitStreams => {
+                    if self.rec.streams.values().all(|s| s.settled()) { self.cursor += 1; return true; }
+                }
+                ClientOp::WaitFrames(n) => {
+                    if self.rec.frames_recv_total >= n { self.cursor += 1; return true; }
+                }
+                ClientOp::Sleep(d) => { self.sleep_until = now + d; self.cursor += 1; return true; }
+                ClientOp::Settings(s) => { self.send_settings(now, s.params()); self.cursor += 1; return true; }
+                ClientOp::Ping(d) => { self.push_frame(&Frame::Ping { ack: false, data: d }); self.rec.pings_sent += 1; self.cursor += 1; return true; }
+                ClientOp::GoAway { code, last_stream } => { self.send_goaway(now, last_stream, code); self.cursor += 1; return true; }
+            }
+        }
+        // ---- one DATA frame of some stream
+        let cand = self.sendable();
+        if !cand.is_empty() {
+            let start = self.rng.below(cand.len() as u64) as usize;
+            for k in 0..cand.len() {
+                if self.gen_data(now, cand[(start + k) % cand.len()]) {
+                    if let Some(t0) = self.blocked_since.take() {
+                        let d = now - t0;
+                        if d > self.rec.counters.max_send_blocked_ns { self.rec.counters.max_send_blocked_ns = d; }
+                    }
+                    return true;
+                }
+            }
+            if self.blocked_since.is_none() { self.blocked_since = Some(now); }
+        }
+        false
+    }
+
+    // ---------------------------------------------------------------- life cycle
+
+    fn unsent_requests(&mut self) {
+        while self.cursor < self.script.len() {
+            if let ClientOp::Req(r) = &self.script[self.cursor] { self.rec.requests_not_sent.push(r.id); }
+            self.cursor += 1;
+        }
+    }
+    fn close_now(&mut self, now: u64) {
+        if self.phase != 2 {
+            self.tr.close();
+            self.rec.closed_by_us = true;
+            self.rec.t_closed_by_us = now;
+            self.phase = 2;
+            self.unsent_requests();
+        }
+    }
+    fn peer_closed(&mut self, now: u64) {
+        self.rec.t_close_seen = now;
+        self.tr.close();
+        self.phase = 2;
+        self.unsent_requests();
+    }
+    fn flushed(&self) -> bool {
+        self.out_pos >= self.out.len() && self.tr.pending_out() == 0
+    }
+
+    /// One scheduling quantum: at most one socket read and one socket write.
+    pub fn step(&mut self, w: &mut World) -> EngineStep {
+        if self.phase == 2 {
+            return EngineStep { progressed: false, wake: None, finished: true };
+        }
+        let now = w.now;
+        let mut progressed = false;
+        let (w0, r0) = (self.tr.wire_written(), self.tr.wire_read());
+        if self.give_up_at > 0 && now >= self.give_up_at {
+            self.rec.gave_up = true;
+            self.close_now(now);
+            return EngineStep { progressed: true, wake: None, finished: true };
+        }
+        // ---- read
+        let rq = self.pace.rq.draw(&mut self.rng).min(1 << 20);
+        let mut buf = Vec::new();
+        match self.tr.read(w, &mut buf, rq) {
+            ReadOutcome::Data(_) => {
+                progressed = true;
+                self.reader.feed(&buf);
+                while let Some(raw) = self.reader.next() {
+                    self.on_frame(w, raw);
+                }
+                if self.reader.preface_seen { self.rec.preface_ok = true; }
+                if self.reader.bad_preface {
+                    self.violate(now, "bad_preface", 0, "connection does not start with the HTTP/2 client preface".into());
+                    self.close_now(now);
+                    return EngineStep { progressed: true, wake: None, finished: true };
+                }
+            }
+            ReadOutcome::WouldBlock => {}
+            ReadOutcome::Eof => {
+                self.rec.eof = true;
+                self.peer_closed(now);
+                return EngineStep { progressed: true, wake: None, finished: true };
+            }
+            ReadOutcome::Err(e) => {
+                self.rec.reset = e == libc::ECONNRESET;
+                self.rec.io_err = Some(e);
+                self.peer_closed(now);
+                return EngineStep { progressed: true, wake: None, finished: true };
+            }
+        }
+        self.apply_marks(now);
+        // ---- generate
+        if !self.tr.is_handshaking() && self.tr.write_error().is_none() {
+            if self.gen_control(now) { progressed = true; }
+            if self.out_pos >= self.out.len() && !self.close_after_flush {
+                for _ in 0..self.plan.batch.max(1) {
+                    if !self.gen_payload(now) { break; }
+                    progressed = true;
+                }
+            }
+            // ---- client: script complete and every stream closed -> end of the connection
+            if self.role == Role::Client && self.phase == 0 && self.cursor >= self.script.len() && self.abuse_q.is_empty() && self.started
+                && self.rec.streams.values().all(|s| s.settled())
+            {
+                self.rec.script_done = true;
+                if let Some(code) = self.end.goaway { self.send_goaway(now, 0, code); }
+                self.phase = 1;
+                self.linger_until = now + self.end.linger_ns;
+                progressed = true;
+            }
+        }
+        self.tx.retain(|id, t| !(t.done && t.cancel.is_none()) && self.rec.streams.get(id).map_or(false, |s| !s.closed()));
+        // ---- write
+        if self.out_pos < self.out.len() || self.tr.pending_out() > 0 || self.tr.is_handshaking() {
+            let q = self.pace.wq.draw(&mut self.rng);
+            let n = self.tr.write(w, &self.out[self.out_pos..], q);
+            self.out_pos += n;
+            if self.out_pos >= self.out.len() {
+                self.out.clear();
+                self.out_pos = 0;
+            } else if self.out_pos > (1 << 16) {
+                self.out.drain(..self.out_pos);
+                self.out_pos = 0;
+            }
+        }
+        self.apply_marks(now);
+        if let (Some(e), None) = (self.tr.write_error(), self.rec.write_err) {
+            // EPIPE / ECONNRESET: nothing more can be sent; keep reading what is left
+            self.rec.write_err = Some(e);
+            self.out.clear();
+            self.out_pos = 0;
+            progressed = true;
+        }
+        if self.tr.wire_written() != w0 || self.tr.wire_read() != r0 { progressed = true; }
+        // ---- endings
+        if self.close_after_flush && self.flushed() {
+            self.close_now(now);
+            return EngineStep { progressed: true, wake: None, finished: true };
+        }
+        if self.phase == 1 && (self.flushed() || self.tr.write_error().is_some()) {
+            match self.end.mode {
+                CloseMode::Close => {
+                    if now >= self.linger_until { self.close_now(now); return EngineStep { progressed: true, wake: None, finished: true }; }
+                }
+                CloseMode::HalfClose | CloseMode::WaitPeer => {
+                    if self.end.mode == CloseMode::HalfClose && !self.shut_sent {
+                        self.tr.shutdown_write();
+                        self.shut_sent = true;
+                        progressed = true;
+                    }
+                    if now >= self.linger_until && self.flushed() { self.close_now(now); return EngineStep { progressed: true, wake: None, finished: true }; }
+                }
+            }
+        }
+        EngineStep { progressed, wake: self.next_timer(now), finished: false }
+    }
+}
+
+/// Message-level faults in a header list received from sozu (`role` is *our* role).
+fn header_issues(fields: &[(String, String)], role: Role) -> Vec<String> {
+    let mut v = Vec::new();
+    let mut regular_seen = false;
+    for (n, val) in fields {
+        if n.starts_with(':') {
+            if regular_seen { v.push(format!("pseudo-header {n} after a regular field")); }
+            let known = if role == Role::Server { matches!(n.as_str(), ":method" | ":scheme" | ":authority" | ":path" | ":protocol") } else { n == ":status" };
+            if !known { v.push(format!("pseudo-header {n} not allowed here")); }
+        } else {
+            regular_seen = true;
+        }
+        if n.bytes().any(|b| b.is_ascii_uppercase()) { v.push(format!("uppercase field name {n}")); }
+        if n.is_empty() || n.bytes().any(|b| b <= 0x20 || b == 0x7f) { v.push(format!("invalid field name {n:?}")); }
+        if matches!(n.as_str(), "connection" | "keep-alive" | "proxy-connection" | "transfer-encoding" | "upgrade") { v.push(format!("connection-specific field {n}")); }
+        if n == "te" && val != "trailers" { v.push("te other than trailers".into()); }
+        if val.bytes().any(|b| b == b'\r' || b == b'\n' || b == 0) { v.push(format!("invalid character in the value of {n}")); }
+    }
+    let count = |name: &str| fields.iter().filter(|(n, _)| n == name).count();
+    if role == Role::Server {
+        let connect = fields.iter().any(|(n, v)| n == ":method" && v == "CONNECT");
+        if count(":method") != 1 { v.push(format!("{} :method fields", count(":method"))); }
+        if !connect && count(":scheme") != 1 { v.push(format!("{} :scheme fields", count(":scheme"))); }
+        if !connect && count(":path") != 1 { v.push(format!("{} :path fields", count(":path"))); }
+        if count(":authority") > 1 { v.push("several :authority fields".into()); }
+    } else if count(":status") != 1 {
+        v.push(format!("{} :status fields", count(":status")));
+    }
+    v
+}
+
+// ===================================================================================== actors
+
+/// One HTTP/2 client connection (to sozu's HTTPS listener when `plan.tls` is set).
+pub struct H2Client {
+    pub plan: H2ClientPlan,
+    pub peer: Option<H2Peer>,
+    /// record of a connection that could not even be set up
+    early: H2ConnRecord,
+    rng: Prng,
+    state: u8,
+    start_at: u64,
+}
+impl H2Client {
+    pub fn new(plan: H2ClientPlan, rng: Prng) -> H2Client {
+        H2Client { plan, peer: None, early: H2ConnRecord::new(Role::Client), rng, state: 0, start_at: 0 }
+    }
+    pub fn record(&self) -> H2ConnRecord {
+        match &self.peer { Some(p) => p.record(), None => self.early.clone() }
+    }
+    fn finish(&mut self, w: &mut World) -> Step {
+        self.state = 2;
+        w.board_add("clients_done", 1);
+        Step::Done
+    }
+}
+impl Actor for H2Client {
+    fn name(&self) -> String { self.plan.name.clone() }
+    fn as_any(&mut self) -> &mut dyn Any { self }
+    fn as_any_ref(&self) -> &dyn Any { self }
+    fn step(&mut self, w: &mut World) -> Step {
+        match self.state {
+            0 => {
+                if w.board_get("configured") == 0 { return Step::Blocked; }
+                if self.plan.start_ns > 0 && self.start_at == 0 { self.start_at = w.now + self.plan.start_ns; }
+                if w.now < self.start_at { return Step::Sleep(self.start_at); }
+                let fd = match w.peer_connect(&self.plan.src.clone(), &self.plan.dst.clone(), self.plan.sndbuf) {
+                    Ok(fd) => fd,
+                    Err(e) => { self.early.connect_err = Some(e); self.early.requests_not_sent = self.plan.requests().iter().map(|r| r.id).collect(); return self.finish(w); }
+                };
+                let tr: Box<dyn Transport> = match &self.plan.tls {
+                    None => Box::new(PlainTransport::new(fd)),
+                    Some(t) => match TlsTransport::new(fd, t) {
+                        Ok(t) => Box::new(t),
+                        Err(e) => { sys::close(fd); self.early.tls_setup_error = Some(e); return self.finish(w); }
+                    },
+                };
+                let mut p = H2Peer::client(tr, self.plan.tls.is_some(), &self.plan, self.rng.fork("engine"));
+                p.rec.t_connect = w.now;
+                if self.plan.give_up_ns > 0 { p.give_up_at = w.now + self.plan.give_up_ns; }
+                self.peer = Some(p);
+                self.state = 1;
+                Step::Progress
+            }
+            1 => {
+                let p = self.peer.as_mut().unwrap();
+                let r = p.step(w);
+                if r.finished { return self.finish(w); }
+                if r.progressed {
+                    if let Some(t) = self.plan.pace.gap(w, &mut self.rng) { return Step::Sleep(t); }
+                    return Step::Progress;
+                }
+                match r.wake { Some(t) => Step::Idle(t), None => Step::Blocked }
+            }
+            _ => Step::Done,
+        }
+    }
+}
+
+/// Prior-knowledge cleartext HTTP/2 server: the backend sozu dials when the cluster has `http2: true`.
+pub struct H2Backend {
+    pub plan: H2BackendPlan,
+    lfd: i32,
+    conns: Vec<H2Peer>,
+    pub records: Vec<H2ConnRecord>,
+    rng: Prng,
+    accepted: usize,
+    listening: bool,
+}
+impl H2Backend {
+    pub fn new(plan: H2BackendPlan, rng: Prng) -> H2Backend {
+        H2Backend { plan, lfd: -1, conns: Vec::new(), records: Vec::new(), rng, accepted: 0, listening: false }
+    }
+    /// all connection records (finished and live), in accept order
+    pub fn all_records(&self) -> Vec<H2ConnRecord> {
+        let mut v = self.records.clone();
+        for c in &self.conns { v.push(c.record()); }
+        v.sort_by_key(|r| r.idx);
+        v
+    }
+    pub fn shutdown(&mut self) {
+        for c in self.conns.drain(..) { self.records.push(c.record()); }
+        if self.lfd >= 0 { sys::close(self.lfd); self.lfd = -1; }
+    }
+}
+impl Actor for H2Backend {
+    fn name(&self) -> String { self.plan.name.clone() }
+    fn as_any(&mut self) -> &mut dyn Any { self }
+    fn as_any_ref(&self) -> &dyn Any { self }
+    fn class(&self) -> u8 { 1 }
+    fn step(&mut self, w: &mut World) -> Step {
+        if !self.listening && self.lfd < 0 && (self.plan.listen_until_ns == 0 || w.now < self.plan.listen_until_ns) {
+            if w.now < self.plan.listen_from_ns { return Step::Sleep(self.plan.listen_from_ns); }
+            match w.peer_listen(&self.plan.addr.clone()) {
+                Ok(fd) => { self.lfd = fd; self.listening = true; return Step::Progress; }
+                Err(e) => panic!("h2 backend listen failed: errno {e}"),
+            }
+        }
+        if self.listening && self.plan.listen_until_ns > 0 && w.now >= self.plan.listen_until_ns {
+            sys::close(self.lfd);
+            self.lfd = -1;
+            self.listening = false;
+            w.stats.fault("backend_listener_closed");
+        }
+        let mut progressed = false;
+        if self.listening {
+            if let Ok((fd, _peer)) = sys::accept_unix(self.lfd, libc::SOCK_NONBLOCK | libc::SOCK_CLOEXEC) {
+                let idx = self.accepted;
+                self.accepted += 1;
+                progressed = true;
+                if self.plan.close_on_accept.contains(&idx) {
+                    w.stats.fault("backend_close_on_accept");
+                    sys::close(fd);
+                    let mut r = H2ConnRecord::new(Role::Server);
+                    r.idx = idx; r.t_connect = w.now; r.closed_by_us = true; r.t_closed_by_us = w.now;
+                    self.records.push(r);
+                } else {
+                    let mut p = H2Peer::server(Box::new(PlainTransport::new(fd)), &self.plan, self.rng.fork("conn"));
+                    p.rec.idx = idx;
+                    p.rec.t_connect = w.now;
+                    self.conns.push(p);
+                }
+            }
+        }
+        let mut wake: Option<u64> = None;
+        let n = self.conns.len();
+        if n > 0 {
+            let start = self.rng.below(n as u64) as usize;
+            for k in 0..n {
+                let i = (start + k) % n;
+                let r = self.conns[i].step(w);
+                if let Some(t) = r.wake { wake = Some(wake.map_or(t, |x| x.min(t))); }
+                if r.progressed || r.finished { progressed = true; break; }
+            }
+            let mut i = 0;
+            while i < self.conns.len() {
+                if self.conns[i].finished() { let c = self.conns.remove(i); self.records.push(c.record()); } else { i += 1; }
+            }
+        }
+        if progressed {
+            if let Some(t) = self.plan.pace.gap(w, &mut self.rng) { return Step::Sleep(t); }
+            return Step::Progress;
+        }
+        if self.listening && self.plan.listen_until_ns > w.now { let t = self.plan.listen_until_ns; wake = Some(wake.map_or(t, |x| x.min(t))); }
+        match wake { Some(t) => Step::Idle(t), None => Step::Blocked }
+    }
+}
+impl Drop for H2Backend {
+    fn drop(&mut self) { self.shutdown(); }
+}
+
+// ===================================================================================== self-checks
+
+/// Run the actors of a world that contains no sozu: wake everybody, step, let virtual time pass.
+fn drive(w: &mut World, until_done: &[usize], max_rounds: u32) -> bool {
+    for _ in 0..max_rounds {
+        for id in 0..w.n_actors() { w.wake(id); }
+        w.run_actors(32);
+        if until_done.iter().all(|id| w.actor_done(*id)) {
+            // let the other side observe the close
+            for _ in 0..8 { for id in 0..w.n_actors() { w.wake(id); } w.run_actors(32); }
+            return true;
+        }
+        w.now += 50_000;
+    }
+    false
+}
+
+fn selftest_conversation(seed: u64) -> Result<u64, String> {
+    let mut w = World::new(seed, crate::world::SchedCfg::default());
+    World::install(&mut w);
+    let r = selftest_in_world(&mut w, seed);
+    World::uninstall();
+    r.map(|_| w.trace.0)
+}
+
+fn selftest_in_world(w: &mut World, seed: u64) -> Result<(), String> {
+    w.board_set("configured", 1);
+    let addr: SocketAddr = "10.9.0.1:8000".parse().unwrap();
+    let src: SocketAddr = "10.9.0.2:40000".parse().unwrap();
+    let trailers = vec![("x-trailer".to_string(), "t1".to_string())];
+    // ---- answers
+    let mut responses = BTreeMap::new();
+    responses.insert(1, H2RespSpec::ok(1000));
+    let mut r2 = H2RespSpec::ok(70_000);
+    r2.body.pad = vec![Some(0), None, Some(17), Some(255)];
+    r2.cont_split = vec![3, 0, 4];
+    r2.headers = vec![("x-filler".into(), "f".repeat(200)), ("set-cookie".into(), "k=v".into())];
+    r2.respond_on = RespondOn::EndStream;
+    responses.insert(2, r2);
+    let mut r3 = H2RespSpec::ok(5000);
+    r3.body.end = EndMode::Trailers(trailers.clone());
+    r3.body.frames = vec![1, 0, 2000, 7];
+    r3.interim = vec![103];
+    responses.insert(3, r3);
+    responses.insert(4, H2RespSpec::ok(50_000));
+    let mut r5 = H2RespSpec::ok(0);
+    r5.fault = Some(H2RespFault::Refuse(ecode::REFUSED_STREAM));
+    responses.insert(5, r5);
+    let mut r6 = H2RespSpec::ok(0);
+    r6.status = 204;
+    r6.body.content_length = false;
+    r6.body.end = EndMode::EmptyData;
+    responses.insert(6, r6);
+    let mut bplan = H2BackendPlan::simple("sb", addr, responses);
+    bplan.conn.settings = SettingsSpec { initial_window_size: Some(70_000), max_concurrent_streams: Some(3), max_frame_size: Some(20_000), header_table_size: Some(100), ..Default::default() };
+    bplan.conn.changes = vec![
+        SettingsChange { when: When::RecvData(20_000), settings: SettingsSpec { initial_window_size: Some(10), ..Default::default() } },
+        SettingsChange { when: When::RecvData(40_000), settings: SettingsSpec { initial_window_size: Some(100_000), header_table_size: Some(0), ..Default::default() } },
+    ];
+    bplan.conn.wu = WuPolicy { stream: WuMode::Threshold(30_000), conn: WuMode::Threshold(20_000), fallback_ns: 2_000_000 };
+    bplan.pace = Pace { wq: super::Quantum::All, rq: super::Quantum::Uniform(1000, 6000), gap_pm: 0, gap_ns: 0 };
+    bplan.conn.hpack = HpackStyle { incr_every: 3, huffman: true, ..Default::default() };
+    bplan.conn.batch = 3;
+    // ---- requests
+    let mut q2 = H2ReqSpec::post(2, "self.test", "/two", 100_000);
+    q2.body.frames = vec![1, 16_384, 0, 9];
+    q2.body.pad = vec![None, Some(3)];
+    let mut q3 = H2ReqSpec::post(3, "self.test", "/three", 3000);
+    q3.body.end = EndMode::Trailers(trailers.clone());
+    q3.cont_split = vec![5, 0, 7];
+    q3.priority = Some(Priority { exclusive: false, dep: 0, weight: 31 });
+    q3.headers_pad = Some(9);
+    q3.headers = vec![("cookie".into(), "a=b".into()), ("x-long".into(), "L".repeat(500))];
+    let mut q4 = H2ReqSpec::get(4, "self.test", "/four");
+    q4.cancel = Some(Cancel { after_sent_body: None, after_recv_body: Some(10), code: ecode::CANCEL });
+    let mut cplan = H2ClientPlan::simple("sc", src, addr, None, vec![H2ReqSpec::get(1, "self.test", "/one"), q2, q3, q4, H2ReqSpec::get(5, "self.test", "/five"), H2ReqSpec::get(6, "self.test", "/six")]);
+    cplan.script.insert(2, ClientOp::Ping([7; 8]));
+    // learn the server's MAX_CONCURRENT_STREAMS before opening anything
+    cplan.script.insert(0, ClientOp::WaitFrames(1));
+    cplan.pace = Pace { wq: super::Quantum::Uniform(1, 3000), rq: super::Quantum::Fixed(777), gap_pm: 100, gap_ns: 10_000 };
+    cplan.conn.settings = SettingsSpec { initial_window_size: Some(1000), header_table_size: Some(0), enable_push: Some(0), ..Default::default() };
+    cplan.conn.conn_window_bonus = 1000;
+    cplan.conn.wu = WuPolicy { stream: WuMode::Drip(400), conn: WuMode::Late(300_000), fallback_ns: 0 };
+    cplan.conn.hpack = HpackStyle { repr: Repr::IncrIndex, dynamic_refs: true, static_full: true, huffman: true, table_size: Some(300), ..Default::default() };
+    cplan.conn.batch = 2;
+    cplan.max_concurrent = 8;
+    let bid = w.add_actor(Box::new(H2Backend::new(bplan, Prng::derive(seed, "selftest/backend"))));
+    w.run_actors(1); // listen
+    let cid = w.add_actor(Box::new(H2Client::new(cplan.clone(), Prng::derive(seed, "selftest/client"))));
+    if !drive(w, &[cid], 200_000) {
+        let c: &H2Client = w.actor_ref(cid);
+        return Err(format!("conversation did not finish: client record {:#?}", c.record()));
+    }
+    let crec = { let c: &H2Client = w.actor_ref(cid); c.record() };
+    let brecs = { let b: &H2Backend = w.actor_ref(bid); b.all_records() };
+    if brecs.len() != 1 { return Err(format!("{} backend connections", brecs.len())); }
+    let brec = &brecs[0];
+    if !crec.violations.is_empty() { return Err(format!("client ledger: {:?}", crec.violations)); }
+    if !brec.violations.is_empty() { return Err(format!("backend ledger: {:?}", brec.violations)); }
+    if !brec.preface_ok { return Err("backend saw no preface".into()); }
+    let want: [(u64, u64, u64, Option<u16>); 6] = [(1, 0, 1000, Some(200)), (2, 100_000, 70_000, Some(200)), (3, 3000, 5000, Some(200)), (4, 0, 0, Some(200)), (5, 0, 0, None), (6, 0, 0, Some(204))];
+    for (id, req_len, resp_len, status) in want {
+        let cs = crec.stream_for(id).ok_or(format!("client has no stream for request {id}"))?;
+        let bs = brec.stream_for(id).ok_or(format!("backend never saw request {id}"))?;
+        if bs.body_len != req_len || !bs.body_ok() || !bs.recv_end { return Err(format!("request {id} at the backend: len {} ok {} end {}", bs.body_len, bs.body_ok(), bs.recv_end)); }
+        if !bs.header_issues.is_empty() || !cs.header_issues.is_empty() { return Err(format!("request {id}: header issues {:?} / {:?}", bs.header_issues, cs.header_issues)); }
+        if bs.header(":path").is_none() || bs.header(":authority") != Some("self.test") { return Err(format!("request {id}: headers {:?}", bs.headers)); }
+        if cs.status != status { return Err(format!("request {id}: status {:?}", cs.status)); }
+        match id {
+            4 => {
+                if bs.recv_rst != Some(ecode::CANCEL) || cs.sent_rst != Some(ecode::CANCEL) || cs.body_len < 10 { return Err(format!("request 4: cancel not seen ({:?}, {} bytes)", bs.recv_rst, cs.body_len)); }
+            }
+            5 => {
+                if cs.recv_rst != Some(ecode::REFUSED_STREAM) { return Err(format!("request 5: rst {:?}", cs.recv_rst)); }
+            }
+            _ => {
+                if cs.body_len != resp_len || !cs.body_ok() || !cs.recv_end { return Err(format!("response {id} at the client: len {} ok {} end {}", cs.body_len, cs.body_ok(), cs.recv_end)); }
+            }
+        }
+    }
+    let (c3, b3, c2, c6) = (crec.stream_for(3).unwrap(), brec.stream_for(3).unwrap(), crec.stream_for(2).unwrap(), crec.stream_for(6).unwrap());
+    if c3.trailers != trailers || b3.trailers != trailers || c3.interim != vec![103] || c3.recv_end_on != "trailers" { return Err(format!("stream 3 trailers/interim: {:?} {:?} {:?}", c3.trailers, b3.trailers, c3.interim)); }
+    if b3.header("x-long").map(|v| v.len()) != Some(500) || b3.header_frames < 3 { return Err("stream 3 header block".into()); }
+    if c2.padding_bytes == 0 || c2.header_frames < 3 || c2.header("x-filler").map(|v| v.len()) != Some(200) { return Err(format!("stream 2: padding {} header frames {}", c2.padding_bytes, c2.header_frames)); }
+    if c6.recv_end_on != "empty_data" { return Err(format!("stream 6 ended on {:?}", c6.recv_end_on)); }
+    if brec.pings_recv.len() != 1 || crec.pings_recv.iter().filter(|p| p.2 && p.1 == [7; 8]).count() != 1 { return Err("ping not answered".into()); }
+    if brec.settings_sent.len() != 3 || brec.settings_sent.iter().any(|s| s.t_acked.is_none()) || crec.settings_sent.iter().any(|s| s.t_acked.is_none()) { return Err(format!("settings acks: {:?}", brec.settings_sent)); }
+    if brec.counters.negative_window_settings_applied == 0 { return Err(format!("the mid-connection window shrink never produced a negative window: {:?} {:?} {:?}", brec.counters, brec.settings_sent, brec.streams.values().map(|s| (s.id, s.body_len, s.min_recv_window, s.t_open, s.t_end)).collect::<Vec<_>>())); }
+    if crec.counters.send_blocked_stream == 0 || brec.counters.send_blocked_stream == 0 { return Err("nobody was ever blocked on a window".into()); }
+    if crec.counters.stream_window_zero_hits + crec.counters.conn_window_zero_hits == 0 { return Err("no granted window ever reached 0".into()); }
+    if crec.goaways.is_empty() && brec.goaways.len() != 1 { return Err("client GOAWAY not seen by the backend".into()); }
+    if brec.counters.max_concurrent_seen > 3 { return Err("client exceeded MAX_CONCURRENT_STREAMS".into()); }
+    Ok(())
+}
+
+/// The ledger must notice a peer that breaks the rules: an abusive client against a strict backend.
+fn selftest_ledger(seed: u64) -> Result<(), String> {
+    let mut w = World::new(seed, crate::world::SchedCfg::default());
+    World::install(&mut w);
+    w.board_set("configured", 1);
+    let addr: SocketAddr = "10.9.0.1:8001".parse().unwrap();
+    let mut bplan = H2BackendPlan::simple("lb", addr, BTreeMap::new());
+    bplan.default.respond_on = RespondOn::EndStream;
+    bplan.conn.settings = SettingsSpec { initial_window_size: Some(100), max_concurrent_streams: Some(1), header_table_size: Some(0), ..Default::default() };
+    let mut open = H2ReqSpec::post(1, "self.test", "/open", 0);
+    open.body.end = EndMode::Never;
+    open.body.content_length = false;
+    let hdr = |s: u32| -> AbuseOp {
+        let mut b = Vec::new();
+        for (n, v) in [(":method", "GET"), (":scheme", "http"), (":path", "/"), (":authority", "self.test")] { HpackEncoder::literal(&mut b, n.as_bytes(), v.as_bytes(), Repr::NoIndex, None, false); }
+        AbuseOp::Frame { ty: ftype::HEADERS, flags: flag::END_HEADERS, stream: StreamRef::Id(s), declared_len: None, payload: b }
+    };
+    let mut table_update = Vec::new();
+    HpackEncoder::size_update(&mut table_update, 4096);
+    HpackEncoder::indexed(&mut table_update, 2);
+    let script = vec![
+        ClientOp::Req(open),
+        ClientOp::WaitFrames(2),
+        ClientOp::Abuse(AbuseOp::Frame { ty: ftype::DATA, flags: 0, stream: StreamRef::LastOpened, declared_len: None, payload: vec![0; 200] }),
+        ClientOp::Abuse(AbuseOp::Frame { ty: ftype::DATA, flags: 0, stream: StreamRef::LastOpened, declared_len: None, payload: vec![0; 17_000] }),
+        ClientOp::Abuse(AbuseOp::Frame { ty: ftype::DATA, flags: 0, stream: StreamRef::LastOpened, declared_len: None, payload: vec![0; 60_000] }),
+        ClientOp::Abuse(hdr(3)),
+        ClientOp::Abuse(hdr(4)),
+        ClientOp::Abuse(hdr(3)),
+        ClientOp::Abuse(AbuseOp::Frame { ty: ftype::DATA, flags: 0, stream: StreamRef::Id(9), declared_len: None, payload: vec![1] }),
+        ClientOp::Abuse(AbuseOp::Frame { ty: ftype::HEADERS, flags: flag::END_HEADERS, stream: StreamRef::Id(11), declared_len: None, payload: table_update }),
+        ClientOp::Abuse(AbuseOp::WindowUpdate { stream: StreamRef::Conn, increment: 0, count: 1 }),
+        ClientOp::Abuse(AbuseOp::PingFlood { count: 50, ack: false, rate: Rate { burst: 7, gap_ns: 1000 } }),
+        ClientOp::Abuse(AbuseOp::RapidReset { count: 5, code: ecode::CANCEL, authority: "self.test".into(), path: "/rr".into(), end_stream: true, rate: Rate::all_at_once() }),
+        ClientOp::Abuse(AbuseOp::Garbage { len: 40, seed: 5 }),
+        ClientOp::Sleep(1_000_000),
+    ];
+    let mut cplan = H2ClientPlan::simple("lc", "10.9.0.2:40001".parse().unwrap(), addr, None, vec![]);
+    cplan.script = script;
+    cplan.end = EndPlan { goaway: None, mode: CloseMode::Close, linger_ns: 0 };
+    // stream 1 is never finished by either side: the client walks away
+    cplan.give_up_ns = 5_000_000;
+    let bid = w.add_actor(Box::new(H2Backend::new(bplan, Prng::derive(seed, "ledger/backend"))));
+    w.run_actors(1);
+    let cid = w.add_actor(Box::new(H2Client::new(cplan, Prng::derive(seed, "ledger/client"))));
+    let ok = drive(&mut w, &[cid], 100_000);
+    let brecs = { let b: &H2Backend = w.actor_ref(bid); b.all_records() };
+    World::uninstall();
+    if !ok { return Err("abusive conversation did not finish".into()); }
+    let b = &brecs[0];
+    for kind in ["stream_window_exceeded", "conn_window_exceeded", "frame_too_large", "too_many_streams", "illegal_stream_id", "data_on_idle_stream", "hpack_table_exceeded", "zero_window_increment"] {
+        if !b.has_violation(kind) { return Err(format!("ledger missed {kind}: {:?}", b.violations.iter().map(|v| &v.kind).collect::<Vec<_>>())); }
+    }
+    if b.pings_recv.len() != 50 || b.rst_recv.len() != 5 { return Err(format!("flood accounting: {} pings {} resets", b.pings_recv.len(), b.rst_recv.len())); }
+    Ok(())
+}
+
+/// Codec and peers validated without sozu: an `H2Peer` client talks to an `H2Peer` backend.
+pub fn selftest() -> Result<(), String> {
+    codec_selftest()?;
+    crate::netsim::on_fresh_thread(|| -> Result<(), String> {
+        let h1 = selftest_conversation(11)?;
+        let h2 = selftest_conversation(11)?;
+        if h1 != h2 { return Err(format!("selftest conversation is not deterministic: {h1:x} vs {h2:x}")); }
+        selftest_conversation(12)?;
+        selftest_ledger(13)
+    })
+}
+
+// ===================================================================================== demo through the real proxy
+
+/// Short human-readable form of a connection record (debugging aid).
+pub fn summarize_record(r: &H2ConnRecord) -> String {
+    let mut s = format!("{:?}#{} t_connect={} eof={} reset={} io_err={:?} write_err={:?} closed_by_us={} gave_up={} script_done={} frames_recv={:?} frames_sent={} data_recv={} data_sent={} conn_recv_window={} (min {}) conn_send_window={}\n",
+        r.role, r.idx, r.t_connect, r.eof, r.reset, r.io_err, r.write_err, r.closed_by_us, r.gave_up, r.script_done, r.frames_recv, r.frames_sent, r.data_bytes_recv, r.data_bytes_sent, r.conn_recv_window, r.min_conn_recv_window, r.conn_send_window);
+    if let Some(t) = &r.tls { s += &format!("  tls: done={} alpn={:?} {:?} {:?} cert={}B sig_ok={:?} error={:?} close_notify={} unclean_eof={}\n", t.handshake_done, t.alpn, t.version, t.cipher, t.cert_der.as_ref().map_or(0, |c| c.len()), t.signature_ok, t.error, t.close_notify_received, t.unclean_eof); }
+    for (t, p) in &r.peer_settings { s += &format!("  peer SETTINGS at {t}: {p:?}\n"); }
+    for x in &r.settings_sent { s += &format!("  our SETTINGS {:?} queued={} wire={:?} acked={:?}\n", x.params, x.t_queued, x.t_wire, x.t_acked); }
+    for g in &r.goaways { s += &format!("  GOAWAY at {} last_stream={} code={} debug={:?}\n", g.t, g.last_stream, ecode_name(g.code), String::from_utf8_lossy(&g.debug)); }
+    for (t, id, c) in &r.rst_recv { s += &format!("  RST_STREAM recv at {t} stream={id} code={}\n", ecode_name(*c)); }
+    s += &format!("  window updates recv: conn total {} ({} frames); counters {:?}\n", r.conn_wu_recv, r.window_updates_recv.len(), r.counters);
+    for st in r.streams.values() {
+        s += &format!("  stream {} req_id={:?} sim_id={:?} status={:?} hdr_frames={} body={} ok={} data_frames={} end={}({}) rst_recv={:?} sent_body={} sent_end={} sent_rst={:?} recv_window={} (min {}) send_window={} wu_recv={} t_open={} t_headers={} t_end={} issues={:?}\n    headers={:?} trailers={:?}\n",
+            st.id, st.req_id, st.sim_id, st.status, st.header_frames, st.body_len, st.body_ok(), st.data_frames, st.recv_end, st.recv_end_on, st.recv_rst, st.sent_body, st.sent_end, st.sent_rst, st.recv_window, st.min_recv_window, st.send_window, st.wu_recv, st.t_open, st.t_headers, st.t_end, st.header_issues, st.headers, st.trailers);
+    }
+    for v in &r.violations { s += &format!("  VIOLATION {} stream={} t={}: {}\n", v.kind, v.stream, v.t, v.detail); }
+    s
+}
+
+#[derive(Clone, Debug)]
+pub struct DemoOpts {
+    /// h2c `H2Backend` behind a cluster with `http2: true`; otherwise an `H1Backend`
+    pub h2_backend: bool,
+    pub max_concurrent: u32,
+    /// SETTINGS_INITIAL_WINDOW_SIZE announced by the client / by the h2c backend (`None` = default 65535)
+    pub client_iws: Option<u32>,
+    pub backend_iws: Option<u32>,
+    pub tls: TlsPlan,
+    /// replaces the demo's client plan (src/dst/tls are filled in by the demo)
+    pub client: Option<H2ClientPlan>,
+}
+impl DemoOpts {
+    pub fn new(h2_backend: bool) -> DemoOpts { DemoOpts { h2_backend, max_concurrent: 4, client_iws: None, backend_iws: None, tls: TlsPlan::h2("lolcatho.st"), client: None } }
+}
+
+#[derive(Clone, Debug, Default)]
+pub struct DemoOutcome {
+    pub client: Option<H2ConnRecord>,
+    pub h2_backend: Vec<H2ConnRecord>,
+    pub h1_backend: Vec<super::h1::BackConnRecord>,
+    pub config_failures: Vec<String>,
+    pub panicked: Option<String>,
+    pub aborted: Option<String>,
+    pub boot_error: Option<String>,
+    pub trace_hash: u64,
+    pub log: Vec<String>,
+}
+
+/// One TLS + HTTP/2 client conversation through a real sozu worker: HTTPS listener with the
+/// repository's fixture certificate (CN=lolcatho.st, no SAN), one cluster whose backend is either an
+/// h2c `H2Backend` (`h2_backend = true`, cluster `http2: true`) or an `H1Backend`.
+pub fn demo_run(seed: u64, opts: &DemoOpts, log: bool) -> DemoOutcome {
+    let opts = opts.clone();
+    let h2_backend = opts.h2_backend;
+    use sozu_command_lib::{
+        config::ListenerBuilder,
+        proto::command::{request::RequestType, ActivateListener, AddBackend, AddCertificate, CertificateAndKey, Cluster, ListenerType, LoadBalancingParams, PathRule, Request, RequestHttpFrontend, RulePosition},
+        scm_socket::Listeners,
+        state::ConfigState,
+    };
+    use crate::actors::h1::{BackendPlan, BodySpec, H1Backend, RespSpec};
+    use crate::actors::master::{MOp, Master};
+    use crate::netsim::{self, Knobs};
+    use crate::world::{ConnectMode, SchedCfg};
+
+    netsim::on_fresh_thread(move || {
+        let mut w = World::new(seed, SchedCfg::default());
+        World::install(&mut w);
+        w.log_on = log;
+        let front: SocketAddr = "10.0.0.1:443".parse().unwrap();
+        let back: SocketAddr = "10.1.0.1:8000".parse().unwrap();
+        let host = "lolcatho.st";
+        let cert = std::fs::read_to_string("/repo/lib/assets/certificate.pem").expect("certificate.pem");
+        let key = std::fs::read_to_string("/repo/lib/assets/key.pem").expect("key.pem");
+        let reqs: Vec<Request> = vec![
+            RequestType::AddHttpsListener(ListenerBuilder::new_https(front.into()).to_tls(None).expect("https listener")).into(),
+            RequestType::AddCertificate(AddCertificate {
+                address: front.into(),
+                certificate: CertificateAndKey { certificate: cert, certificate_chain: vec![], key, versions: vec![], names: vec![] },
+                expired_at: None,
+            }).into(),
+            RequestType::ActivateListener(ActivateListener { address: front.into(), proxy: ListenerType::Https.into(), from_scm: false }).into(),
+            RequestType::AddCluster(Cluster { cluster_id: "c0".into(), http2: Some(h2_backend), ..Default::default() }).into(),
+            RequestType::AddHttpsFrontend(RequestHttpFrontend {
+                cluster_id: Some("c0".into()),
+                address: front.into(),
+                hostname: host.into(),
+                path: PathRule::prefix("/".to_string()),
+                position: RulePosition::Tree.into(),
+                ..Default::default()
+            }).into(),
+            RequestType::AddBackend(AddBackend { cluster_id: "c0".into(), backend_id: "c0-0".into(), address: back.into(), load_balancing_parameters: Some(LoadBalancingParams::default()), sticky_id: None, backup: None }).into(),
+        ];
+        // ---- the conversation: a GET with a 40 kB answer and a POST of 100 kB with a 3 kB answer
+        let mut post = H2ReqSpec::post(2, host, "/upload", 100_000);
+        post.body.frames = vec![1, 9, 16_384];
+        post.body.pad = vec![None, Some(5)];
+        let mut cplan = H2ClientPlan::simple("h2c0", "192.0.2.7:40001".parse().unwrap(), front, Some(opts.tls.clone()), vec![H2ReqSpec::get(1, host, "/download"), post]);
+        cplan.pace = Pace { wq: super::Quantum::Uniform(1, 5000), rq: super::Quantum::Uniform(1, 9000), gap_pm: 0, gap_ns: 0 };
+        cplan.max_concurrent = opts.max_concurrent;
+        cplan.conn.settings = SettingsSpec { initial_window_size: opts.client_iws, max_frame_size: Some(16_384), enable_push: Some(0), header_table_size: Some(4096), ..Default::default() };
+        cplan.conn.wu = WuPolicy { stream: WuMode::Threshold(5000), conn: WuMode::Threshold(20_000), fallback_ns: 5_000_000 };
+        cplan.conn.hpack = HpackStyle { incr_every: 2, huffman: true, ..Default::default() };
+        cplan.give_up_ns = 20 * crate::world::SEC;
+        if let Some(c) = &opts.client {
+            let (src, dst, tls) = (cplan.src, cplan.dst, cplan.tls.clone());
+            cplan = c.clone();
+            cplan.src = src; cplan.dst = dst; cplan.tls = tls;
+        }
+        let mut h2b = {
+            let mut m = BTreeMap::new();
+            m.insert(1, H2RespSpec::ok(40_000));
+            m.insert(2, H2RespSpec::ok(3000));
+            m.get_mut(&2).unwrap().respond_on = RespondOn::EndStream;
+            H2BackendPlan::simple("b0", back, m)
+        };
+        h2b.conn.settings = SettingsSpec { initial_window_size: opts.backend_iws, max_concurrent_streams: Some(10), ..Default::default() };
+        h2b.conn.wu = WuPolicy { stream: WuMode::Drip(7000), conn: WuMode::WhenExhausted, fallback_ns: 5_000_000 };
+        let h1b = {
+            let mut m = BTreeMap::new();
+            m.insert(1, RespSpec::ok(BodySpec::Cl(40_000)));
+            m.insert(2, RespSpec::ok(BodySpec::Chunked(vec![1000, 2000])));
+            BackendPlan { name: "b0".into(), addr: back, pace: Pace::greedy(), responses: m, default: RespSpec::ok(BodySpec::Cl(3)), close_on_accept: vec![], listen_from_ns: 0, listen_until_ns: 0 }
+        };
+        let (mut cid, mut bid) = (0, 0);
+        let (end, mid) = netsim::run_worker(&mut w, Knobs::default().server_config(), ConfigState::new(), Listeners::default(), |w, m: &mut Master| {
+            m.send_all(reqs);
+            m.push(MOp::Barrier);
+            m.push(MOp::SetBoard("configured".into(), 1));
+            m.push(MOp::WaitBoard("clients_done".into(), 1));
+            m.push(MOp::HardStop);
+            w.topo.insert(back, ConnectMode::Listen { delay_ns: 0 });
+            bid = if h2_backend {
+                w.add_actor(Box::new(H2Backend::new(h2b.clone(), Prng::derive(seed, "demo/backend"))))
+            } else {
+                w.add_actor(Box::new(H1Backend::new(h1b.clone(), Prng::derive(seed, "demo/backend"))))
+            };
+            cid = w.add_actor(Box::new(H2Client::new(cplan.clone(), Prng::derive(seed, "demo/client"))));
+        });
+        let mut out = DemoOutcome { panicked: end.panicked, aborted: end.aborted, boot_error: end.boot_error, ..Default::default() };
+        {
+            let m: &Master = w.actor_ref(mid);
+            for (_, r) in &m.data.responses {
+                if r.status == sozu_command_lib::proto::command::ResponseStatus::Failure as i32 { out.config_failures.push(format!("{}: {}", r.id, r.message)); }
+            }
+        }
+        out.client = Some({ let c: &H2Client = w.actor_ref(cid); c.record() });
+        if h2_backend { out.h2_backend = { let b: &H2Backend = w.actor_ref(bid); b.all_records() }; } else { out.h1_backend = { let b: &H1Backend = w.actor_ref(bid); b.all_records() }; }
+        out.trace_hash = w.trace.0;
+        out.log = std::mem::take(&mut w.log);
+        out
+    })
+}
+
+fn demo_check(o: &DemoOutcome, h2_backend: bool) -> Result<String, String> {
+    if let Some(p) = &o.panicked { return Err(format!("worker panicked: {p}")); }
+    if let Some(e) = &o.boot_error { return Err(format!("worker boot: {e}")); }
+    if !o.config_failures.is_empty() { return Err(format!("configuration refused: {:?}", o.config_failures)); }
+    let c = o.client.as_ref().ok_or("no client record")?;
+    let tls = c.tls.as_ref().ok_or("no TLS record")?;
+    if !tls.handshake_done { return Err(format!("TLS handshake did not complete: {:?} (aborted={:?})", tls.error, o.aborted)); }
+    if tls.alpn.as_deref() != Some("h2") { return Err(format!("ALPN {:?}", tls.alpn)); }
+    if tls.cert_der.is_none() || tls.signature_ok != Some(true) { return Err(format!("certificate not recorded / signature {:?}", tls.signature_ok)); }
+    if !c.violations.is_empty() { return Err(format!("client ledger violations: {:?}", c.violations)); }
+    for (id, want) in [(1u64, 40_000u64), (2, 3000)] {
+        let s = c.stream_for(id).ok_or(format!("no stream for request {id}; record: goaways={:?} rst={:?} eof={} err={:?} gave_up={}", c.goaways, c.rst_recv, c.eof, c.io_err, c.gave_up))?;
+        if s.status != Some(200) || s.body_len != want || !s.body_ok() || !s.recv_end {
+            return Err(format!("request {id}: status {:?} body {} of {want} ok={} end={} rst={:?} sim_id={:?} head={:?}; goaways={:?}", s.status, s.body_len, s.body_ok(), s.recv_end, s.recv_rst, s.sim_id, String::from_utf8_lossy(&s.body_head[..s.body_head.len().min(80)]), c.goaways));
+        }
+    }
+    let mut seen = String::new();
+    if h2_backend {
+        if o.h2_backend.is_empty() { return Err("sozu never connected to the h2c backend".into()); }
+        for b in &o.h2_backend {
+            if !b.violations.is_empty() { return Err(format!("backend ledger violations on connection {}: {:?}", b.idx, b.violations)); }
+        }
+        let s2 = o.h2_backend.iter().filter_map(|b| b.stream_for(2)).find(|s| s.recv_end).ok_or("backend never saw request 2 complete")?;
+        if s2.body_len != 100_000 || !s2.body_ok() { return Err(format!("request 2 at the backend: {} bytes ok={}", s2.body_len, s2.body_ok())); }
+        let b = o.h2_backend.iter().find(|b| b.stream_for(1).is_some()).ok_or("backend never saw request 1")?;
+        seen = format!("backend saw {} connection(s), request headers {:?}", o.h2_backend.len(), b.stream_for(1).map(|s| s.headers.clone()));
+    } else {
+        let q: Vec<&super::h1codec::Msg> = o.h1_backend.iter().flat_map(|r| r.requests.iter()).collect();
+        let m = q.iter().find(|m| m.sim_id == Some(2)).ok_or("H1 backend never saw request 2")?;
+        if m.body_len != 100_000 || !m.body_ok() || !m.complete { return Err(format!("request 2 at the H1 backend: {} bytes ok={} complete={}", m.body_len, m.body_ok(), m.complete)); }
+        seen = format!("{seen}H1 backend saw {:?}", q.iter().map(|m| m.start.clone()).collect::<Vec<_>>());
+    }
+    Ok(format!("tls={:?}/{:?} alpn={:?} cert={}B sozu_settings={:?} frames_recv={:?} {seen}", tls.version, tls.cipher, tls.alpn, tls.cert_der.as_ref().map_or(0, |c| c.len()), c.peer_settings.first().map(|s| &s.1), c.frames_recv))
+}
+
+/// Boots a real worker (HTTPS listener, fixture certificate) and runs one TLS + HTTP/2 client
+/// conversation end to end, first against an h2c backend, then against an HTTP/1.1 backend; each
+/// twice, to confirm that the run (every TLS ciphertext byte included) is deterministic. Then two
+/// probes with unequal INITIAL_WINDOW_SIZE on the two sides of sozu; what the peers' ledgers say
+/// is appended to the report as observations (they do not fail the demo).
+pub fn demo_through_sozu(seed: u64) -> Result<String, String> {
+    let mut report = String::new();
+    for h2_backend in [true, false] {
+        let tag = if h2_backend { "h2c" } else { "h1" };
+        let opts = DemoOpts::new(h2_backend);
+        let a = demo_run(seed, &opts, false);
+        let b = demo_run(seed, &opts, false);
+        let line = demo_check(&a, h2_backend).map_err(|e| format!("[{tag} backend] {e}"))?;
+        let fp = |o: &DemoOutcome| o.client.as_ref().and_then(|c| c.tls.as_ref()).map(|t| (t.wire_out_hash, t.wire_in_hash, t.handshake_wire_out, t.handshake_wire_in));
+        if a.trace_hash != b.trace_hash || fp(&a) != fp(&b) {
+            return Err(format!("[{tag} backend] two runs of the same seed differ: trace {:x} vs {:x}, tls wire {:?} vs {:?}", a.trace_hash, b.trace_hash, fp(&a), fp(&b)));
+        }
+        report += &format!("[{tag} backend] ok trace={:x} tls_wire={:x?} {line}\n", a.trace_hash, fp(&a));
+    }
+    {
+        // TLS 1.2, small records, SNI in another case
+        let mut opts = DemoOpts::new(false);
+        opts.tls = TlsPlan { sni: Some("LolCatho.st".into()), alpn: vec!["h2".into(), "http/1.1".into()], versions: super::tls::TlsVersions::Tls12, max_fragment_size: Some(512) };
+        let o = demo_run(seed, &opts, false);
+        let line = demo_check(&o, false).map_err(|e| format!("[tls1.2] {e}"))?;
+        report += &format!("[tls1.2 h1 backend] ok {}\n", &line[..line.len().min(90)]);
+    }
+    for (c, b) in [(None, Some(1000u32)), (Some(20_000u32), Some(30_000u32))] {
+        let mut opts = DemoOpts::new(true);
+        opts.max_concurrent = 1;
+        opts.client_iws = c;
+        opts.backend_iws = b;
+        let o = demo_run(seed, &opts, false);
+        let verdict = match demo_check(&o, true) { Ok(_) => "completed, ledgers clean".to_string(), Err(e) => e };
+        report += &format!("[probe client_iws={c:?} backend_iws={b:?}] {verdict}\n");
+    }
+    Ok(report)
+}
+
+/// Randomised client shapes (framing, padding, CONTINUATION, priorities, trailers, HPACK styles,
+/// window policies, pacing) for requests 1 (GET, 40 kB answer) and 2 (POST 100 kB, 3 kB answer)
+/// through sozu to the HTTP/1.1 backend of the demo. Returns the failures.
+pub fn demo_shapes(seed: u64, n: u64) -> Vec<String> {
+    let mut fails = Vec::new();
+    for k in 0..n {
+        let mut rng = Prng::derive(seed + k, "h2/shapes");
+        let host = "lolcatho.st";
+        let mut get = H2ReqSpec::get(1, host, "/download");
+        let mut post = H2ReqSpec::post(2, host, "/upload", 100_000);
+        for r in [&mut get, &mut post] {
+            if rng.below(2) == 0 { r.cont_split = (0..rng.below(4)).map(|_| rng.below(40) as usize).collect(); }
+            // (non-zero HEADERS padding together with CONTINUATION is refused by sozu: see the report)
+            if rng.below(3) == 0 { r.headers_pad = Some(if r.cont_split.is_empty() { rng.below(256) as u8 } else { 0 }); }
+            if rng.below(3) == 0 { r.priority = Some(Priority { exclusive: rng.below(2) == 0, dep: 0, weight: rng.below(256) as u8 }); }
+            if rng.below(2) == 0 { r.headers.push(("x-extra".into(), "e".repeat(rng.below(3000) as usize))); }
+            if rng.below(3) == 0 { r.headers.push(("cookie".into(), "a=1".into())); r.headers.push(("cookie".into(), "b=2".into())); }
+        }
+        post.body.frames = (0..rng.below(6)).map(|_| *rng.pick(&[0usize, 1, 9, 100, 16_384, 16_383, 5000])).collect();
+        post.body.pad = (0..rng.below(3)).map(|_| if rng.below(2) == 0 { None } else { Some(rng.below(256) as u8) }).collect();
+        post.body.end = match rng.below(3) { 0 => EndMode::Auto, 1 => EndMode::EmptyData, _ => EndMode::Trailers(vec![("x-t".into(), "v".into())]) };
+        post.body.content_length = rng.below(2) == 0;
+        let mut c = H2ClientPlan::simple("shape", "192.0.2.7:40001".parse().unwrap(), "10.0.0.1:443".parse().unwrap(), None, vec![get, post]);
+        c.pace = Pace::random(&mut rng, 150_000);
+        c.max_concurrent = 1 + rng.below(2) as u32;
+        c.conn.settings = SettingsSpec {
+            initial_window_size: *rng.pick(&[None, Some(0), Some(1000), Some(65_535), Some(1 << 20), Some(0x7fff_ffff)]),
+            max_frame_size: *rng.pick(&[None, Some(16_384), Some(20_000), Some(0xff_ffff)]),
+            header_table_size: *rng.pick(&[None, Some(0), Some(100), Some(4096), Some(65_536)]),
+            max_concurrent_streams: *rng.pick(&[None, Some(100)]),
+            enable_push: Some(0),
+            ..Default::default()
+        };
+        c.conn.conn_window_bonus = *rng.pick(&[0u32, 0, 1, 100_000]);
+        let modes = [WuMode::Eager, WuMode::Drip(1 + rng.below(3000) as u32), WuMode::Threshold(1 + rng.below(30_000) as u32), WuMode::WhenExhausted, WuMode::Late(rng.below(3_000_000))];
+        c.conn.wu = WuPolicy { stream: rng.pick(&modes).clone(), conn: rng.pick(&modes).clone(), fallback_ns: 20_000_000 };
+        if c.conn.settings.initial_window_size == Some(0) { c.conn.wu.stream = WuMode::Eager; c.conn.changes.push(SettingsChange { when: When::AfterNs(1_000_000), settings: SettingsSpec { initial_window_size: Some(30_000), ..Default::default() } }); }
+        c.conn.hpack = HpackStyle { repr: *rng.pick(&[Repr::NoIndex, Repr::NeverIndex, Repr::IncrIndex]), incr_every: rng.below(4) as u32, static_names: rng.below(2) == 0, static_full: rng.below(2) == 0, huffman: rng.below(2) == 0, dynamic_refs: rng.below(2) == 0, table_size: *rng.pick(&[None, Some(0), Some(100), Some(4096)]) };
+        c.conn.batch = 1 + rng.below(4) as u32;
+        c.give_up_ns = 30 * crate::world::SEC;
+        let mut opts = DemoOpts::new(false);
+        opts.client = Some(c.clone());
+        let o = demo_run(seed + k, &opts, false);
+        if let Err(e) = demo_check(&o, false) {
+            if std::env::var("H2SHAPE_VERBOSE").is_ok() { if let Some(r) = &o.client { fails.push(format!("{}\nscript={:?}", summarize_record(r), c.script)); } }
+            fails.push(format!("seed {}: {e}\n   settings={:?} wu={:?} hpack={:?} pace={:?} bonus={} conc={}", seed + k, c.conn.settings, c.conn.wu, c.conn.hpack, c.pace, c.conn.conn_window_bonus, c.max_concurrent));
+        }
+    }
+    fails
+}
